@@ -1,76 +1,2368 @@
 """C17 - assemble_rtf yields one well-formed document with every input in order.
 
-R17.1 writer/reader layout agreement: the number of lines find_start_index skips after the last
-'fcharset' line equals what the encoders write there, the font-table closing line carries nothing
-else, and every document ends with a line consisting of '}' only; R17.2 ordering rules of
-assemble_rtf (existence check dominates the output open, empty list returns first, parts in input
-order, page command between inputs, per-file start index).
+R17.1 writer/reader layout agreement: the encoders' literal preamble gives the line on which the font table closes
+(that line must carry nothing else; every document ends with a line consisting of '}' only); a non-first input must be
+kept from the line after it.  R17.2 behaviour of assemble_rtf observed by interpreting its syntax tree over an
+in-memory file system with model documents (empty list, single input, all layout combinations of two/three inputs,
+missing inputs).  R17.3 a second call after an input was rewritten assembles the new content (functools caches are
+modelled faithfully by the interpreter).
+
+This module also hosts the model interpreter and the file-system model shared by the C17..C20 rules.
 """
 from __future__ import annotations
 
 import ast
 
 from .. import shapes as S
-from ..cfg import CFG
-from ..consteval import const_expr
-from ..absint import NOC
 from ..docshape import PATHS, doc_shape, make_interp
-from ..linform import linform
 from ..pm import AnalysisError, dotted, unparse, walk_no_nested
 from ..report import Ctx
 
+# ================================================================================================
+# Model interpreter: the syntax tree of a repository function is interpreted over *model values*
+# (ordinary Python data for data, small model objects for the outside world: files, paths, converters,
+# font loaders ...).  Nothing of the repository is imported or executed by Python itself.  Rules use it
+# to observe what a function *does* on representative model inputs (what it reads, writes, raises and
+# returns) instead of matching how its source is spelled; a construct outside the supported subset
+# raises Unsupported (an AnalysisError: analysis gap, never a violation).
+# ================================================================================================
+import builtins as _bi
+import collections as _collections
+import collections.abc as _abc
+import copy as _copy
+import functools as _functools
+import itertools as _itertools
+import math as _math
+import operator as _operator
+import os.path as _ospath
+import re as _re
+import string as _string
+import typing as _typing
+import fractions as _fractions
+import decimal as _decimal
+import numbers as _numbers
+import textwrap as _textwrap
+import bisect as _bisect
+import heapq as _heapq
+import statistics as _statistics
 
-def reader_constants(ctx: Ctx):
+
+class Unsupported(AnalysisError):
+    """construct outside the interpreted subset / unmodelled external"""
+
+
+class NeedChoice(Exception):
+    def __init__(self, key, domain):
+        self.key, self.domain = key, list(domain)
+
+
+class PyExc(Exception):
+    """an exception propagating inside the interpreted program; .val is the exception object (Obj)"""
+
+    def __init__(self, val):
+        Exception.__init__(self, repr(val))
+        self.val = val
+
+
+class _Return(Exception):
+    def __init__(self, v):
+        self.v = v
+
+
+class _Break(Exception):
+    pass
+
+
+class _Continue(Exception):
+    pass
+
+
+EXC_BASES = {
+    "BaseException": None, "Exception": "BaseException", "ArithmeticError": "Exception", "ZeroDivisionError": "ArithmeticError",
+    "OverflowError": "ArithmeticError", "AssertionError": "Exception", "AttributeError": "Exception", "EOFError": "Exception",
+    "ImportError": "Exception", "ModuleNotFoundError": "ImportError", "LookupError": "Exception", "IndexError": "LookupError",
+    "KeyError": "LookupError", "NameError": "Exception", "OSError": "Exception", "FileNotFoundError": "OSError",
+    "FileExistsError": "OSError", "PermissionError": "OSError", "IsADirectoryError": "OSError", "NotADirectoryError": "OSError",
+    "TimeoutError": "OSError", "RuntimeError": "Exception", "NotImplementedError": "RuntimeError", "RecursionError": "RuntimeError",
+    "StopIteration": "Exception", "TypeError": "Exception", "ValueError": "Exception", "UnicodeError": "ValueError",
+    "UnicodeDecodeError": "UnicodeError", "UnicodeEncodeError": "UnicodeError", "KeyboardInterrupt": "BaseException",
+    "SystemExit": "BaseException", "GeneratorExit": "BaseException", "Warning": "Exception", "UserWarning": "Warning",
+    "DeprecationWarning": "Warning", "IOError": "OSError", "EnvironmentError": "OSError",
+    "ValidationError": "ValueError",          # pydantic_core.ValidationError
+}
+
+
+class BuiltinExc:
+    """a builtin exception class"""
+
+    def __init__(self, name):
+        self.name = name
+
+    def mro_names(self):
+        out, n = [], self.name
+        while n is not None:
+            out.append(n)
+            n = EXC_BASES.get(n)
+        return out + ["object"]
+
+    def __repr__(self):
+        return f"<class {self.name}>"
+
+    def __deepcopy__(self, memo):
+        return self
+
+
+_BEXC = {n: BuiltinExc(n) for n in EXC_BASES}
+_BEXC["IOError"] = _BEXC["EnvironmentError"] = _BEXC["OSError"]
+
+
+class ClassVal:
+    """a class defined in the analysed repository"""
+
+    def __init__(self, it, ci):
+        self.it, self.ci, self.name = it, ci, ci.name
+        self.statics = {}          # class attributes assigned at run time / evaluated lazily
+
+    def mro_names(self):
+        out = []
+        for c in self.it.pm.mro(self.ci.name):
+            if c in self.it.pm.classes:
+                out.append(c)
+            elif c in EXC_BASES:
+                out.extend(x for x in _BEXC[c].mro_names() if x not in out)
+            else:
+                out.append(c)
+        return out + ["object"]
+
+    def __repr__(self):
+        return f"<class {self.name}>"
+
+    def __deepcopy__(self, memo):
+        return self
+
+    def __call__(self, *a, **k):
+        return self.it.call(self, list(a), k)
+
+
+class Obj:
+    """an instance of a repository class, of a builtin exception, or (cls None) a plain namespace"""
+
+    def __init__(self, cls, attrs=None):
+        self.cls = cls
+        self.attrs = dict(attrs or {})
+
+    def __repr__(self):
+        if self.cls is not None and "BaseException" in self.cls.mro_names():
+            return f"{self.cls.name}({', '.join(repr(a) for a in self.attrs.get('args', ()))})"
+        return f"<{self.cls.name if self.cls is not None else 'namespace'} object>"
+
+
+class Unknown:
+    """an arbitrary value coming from outside the analysed code (pure-function results on it are Unknown too)"""
+
+    def __init__(self, label):
+        self.label = label
+
+    def __repr__(self):
+        return f"<?{self.label}>"
+
+    def __deepcopy__(self, memo):
+        return self
+
+
+class ExtRef:
+    """a name imported from outside the repository for which no model is registered"""
+
+    def __init__(self, dotted):
+        self.dotted = dotted
+
+    def __repr__(self):
+        return f"<ext {self.dotted}>"
+
+    def __deepcopy__(self, memo):
+        return self
+
+
+class ModVal:
+    def __init__(self, mi):
+        self.mi = mi
+
+    def __repr__(self):
+        return f"<module {self.mi.name}>"
+
+    def __deepcopy__(self, memo):
+        return self
+
+
+class Func:
+    def __init__(self, it, node, module, closure, fi=None, cls=None):
+        self.it, self.node, self.module, self.closure, self.fi, self.cls = it, node, module, closure, fi, cls
+        self.name = getattr(node, "name", "<lambda>")
+        facts = getattr(node, "_mpy_facts", None)
+        if facts is None:
+            facts = (not isinstance(node, ast.Lambda) and any(isinstance(n, (ast.Yield, ast.YieldFrom)) for n in walk_no_nested(node)),
+                     [dotted(d) for d in getattr(node, "decorator_list", [])])
+            node._mpy_facts = facts
+        self.is_gen, self.decos = facts
+
+    def __repr__(self):
+        return f"<function {self.name}>"
+
+    def __call__(self, *a, **k):
+        return self.it.call(self, list(a), k)
+
+    def __deepcopy__(self, memo):
+        return self
+
+
+class Bound:
+    def __init__(self, func, recv):
+        self.func, self.recv = func, recv
+
+    def __call__(self, *a, **k):
+        return self.func.it.call(self, list(a), k)
+
+    def __repr__(self):
+        return f"<bound {self.func.name}>"
+
+    def __deepcopy__(self, memo):
+        return self
+
+
+class GenCM:
+    """result of calling a @contextmanager generator function"""
+
+    def __init__(self, gen):
+        self.gen = gen
+
+
+class SuperProxy:
+    def __init__(self, obj, after):
+        self.obj, self.after = obj, after
+
+
+class Frame:
+    __slots__ = ("vars", "parent", "module", "func", "outer_names")
+
+    def __init__(self, module, parent=None, func=None):
+        self.vars, self.parent, self.module, self.func = {}, parent, module, func
+        self.outer_names = set()
+
+
+_NATIVE_MODULES = {"math": _math, "collections.abc": _abc, "collections": _collections, "itertools": _itertools,
+                   "functools": _functools, "operator": _operator, "string": _string, "re": _re, "typing": _typing,
+                   "copy": _copy, "os.path": _ospath, "fractions": _fractions, "decimal": _decimal, "numbers": _numbers,
+                   "textwrap": _textwrap, "bisect": _bisect, "heapq": _heapq, "statistics": _statistics}
+_IMPURE_NATIVE = {"os.path.exists", "os.path.isfile", "os.path.isdir", "os.path.getsize", "os.path.abspath", "os.path.expanduser",
+                  "os.path.realpath", "os.path.getmtime", "os.path.islink", "os.path.lexists", "os.path.samefile",
+                  "functools.lru_cache", "functools.cache", "functools.cached_property", "functools.wraps"}
+_PURE_OSPATH = {"join", "basename", "dirname", "splitext", "split", "normpath", "isabs", "sep", "commonprefix", "splitdrive", "extsep"}
+_SAFE_BUILTINS = ("abs", "all", "any", "ascii", "bin", "bool", "bytes", "bytearray", "chr", "complex", "dict", "divmod", "enumerate",
+                  "filter", "float", "format", "frozenset", "hash", "hex", "int", "iter", "list", "map", "max", "min", "next", "object",
+                  "oct", "ord", "pow", "range", "reversed", "round", "set", "slice", "sorted", "sum", "tuple", "zip", "str")
+_NATIVE_ERRORS = (KeyError, IndexError, ValueError, TypeError, AttributeError, ZeroDivisionError, StopIteration, OverflowError, LookupError,
+                  AssertionError, RecursionError)
+_BINOPS = {ast.Add: _operator.add, ast.Sub: _operator.sub, ast.Mult: _operator.mul, ast.Div: _operator.truediv,
+           ast.FloorDiv: _operator.floordiv, ast.Mod: _operator.mod, ast.Pow: _operator.pow, ast.BitOr: _operator.or_,
+           ast.BitAnd: _operator.and_, ast.BitXor: _operator.xor, ast.LShift: _operator.lshift, ast.RShift: _operator.rshift,
+           ast.MatMult: _operator.matmul}
+_CMPOPS = {ast.Eq: _operator.eq, ast.NotEq: _operator.ne, ast.Lt: _operator.lt, ast.LtE: _operator.le, ast.Gt: _operator.gt,
+           ast.GtE: _operator.ge, ast.Is: _operator.is_, ast.IsNot: _operator.is_not}
+_OPQ = (Unknown, ExtRef)
+
+
+class Interp:
+    """interpreter of repository syntax trees over model values.
+
+    externals: dotted external name (as imported, e.g. 'os.path.exists', 'tempfile.TemporaryDirectory', 'shutil')
+    -> model value (any Python object; callables are called natively with model values).
+    Hooks for subclasses: make_model (instantiate a pydantic model), before_call (fault injection), isinstance_ext.
+    """
+
+    MAX_STEPS = 400000
+
+    def __init__(self, pm, externals=None, lenient=True):
+        self.pm = pm
+        self.externals = {"os.environ": Unknown("os.environ"), "os.name": Unknown("os.name"), "sys.platform": Unknown("sys.platform"),
+                          "os.sep": "/", "os.altsep": None, "os.linesep": "\n", "os.curdir": ".", "os.pardir": "..",
+                          "sys.version_info": Unknown("sys.version_info"), "sys.stdout": ExtRef("sys.stdout"), "sys.stderr": ExtRef("sys.stderr"),
+                          "warnings.warn": (lambda *a, **k: None), "logging.getLogger": (lambda *a, **k: Unknown("logger"))}
+        self.externals.update(externals or {})
+        self.overrides = {}               # repository class / function short name -> model standing in for it
+        self.lenient = lenient            # unmodelled external calls give Unknown instead of Unsupported
+        self.valuation = {}
+        self.steps = 0
+        self.depth = 0
+        self._globals = {}
+        self._classes = {}
+        self._nt = {}
+        self._pending = set()
+        self.notes = []
+        self.exc_stack = []
+        self.choice_reads = 0
+        self._memo = {}
+        self._decorated = {}
+        self.in_definition = 0
+
+    # ------------------------------------------------------------------ choices (forking on unknown booleans)
+    def choose(self, key, domain=(True, False)):
+        self.choice_reads += 1
+        if key in self.valuation:
+            return self.valuation[key]
+        raise NeedChoice(key, domain)
+
+    def explore(self, thunk, limit=256):
+        """run thunk() under every valuation of the choices it consults -> [(valuation, outcome)] where outcome is
+        ('return', v) or ('raise', exception Obj)"""
+        out, pending, n = [], [dict()], 0
+        while pending:
+            v = pending.pop()
+            n += 1
+            if n > limit:
+                raise Unsupported(f"more than {limit} combinations of unknown conditions")
+            self.valuation = v
+            try:
+                out.append((v, self.outcome(thunk)))
+            except NeedChoice as e:
+                for x in e.domain:
+                    pending.append({**v, e.key: x})
+        self.valuation = {}
+        return out
+
+    def outcome(self, thunk):
+        self.steps = 0
+        self.depth = 0
+        try:
+            return ("return", thunk())
+        except PyExc as e:
+            return ("raise", e.val)
+
+    # ------------------------------------------------------------------ exceptions
+    def exc_class(self, name):
+        return _BEXC[name]
+
+    def make_exc(self, name, *args):
+        """an exception raised by the interpreter or a model (not by a `raise` statement of the analysed code)"""
+        return Obj(_BEXC.get(name) or BuiltinExc(name), {"args": tuple(args), "__origin__": "interp"})
+
+    def throw(self, name, *args):
+        raise PyExc(self.make_exc(name, *args))
+
+    def is_exc_obj(self, v):
+        return isinstance(v, Obj) and v.cls is not None and "BaseException" in v.cls.mro_names()
+
+    def exc_names(self, v):
+        return v.cls.mro_names() if isinstance(v, Obj) and v.cls is not None else []
+
+    def native(self, f, *a, **k):
+        """call a native Python callable with model values; native errors become interpreted exceptions"""
+        try:
+            return f(*a, **k)
+        except (PyExc, Unsupported, NeedChoice, _Return):
+            raise
+        except _NATIVE_ERRORS as e:
+            if any(isinstance(x, _OPQ) for x in list(a) + list(k.values())):
+                return Unknown(f"{getattr(f, '__name__', 'call')}(…)")
+            if any(isinstance(x, (Obj, ClassVal, Func, Bound)) for x in list(a) + list(k.values())) and isinstance(e, (TypeError, AttributeError)):
+                raise Unsupported(f"native {getattr(f, '__name__', f)} applied to a model object: {e}")
+            raise PyExc(self.make_exc(type(e).__name__, *e.args))
+
+    # ------------------------------------------------------------------ names
+    def class_val(self, ci):
+        cv = self._classes.get(ci.name)
+        if cv is None:
+            cv = self._classes[ci.name] = ClassVal(self, ci)
+        return cv
+
+    _DECO_SKIP = {"staticmethod", "classmethod", "property", "cached_property", "computed_field", "field_validator", "model_validator",
+                  "validator", "root_validator", "field_serializer", "model_serializer", "lru_cache", "cache", "contextmanager",
+                  "asynccontextmanager", "wraps", "overload", "abstractmethod", "override", "final", "deprecated", "no_type_check",
+                  "setter", "getter", "deleter", "dataclass", "total_ordering"}
+
+    def func_val(self, fi, closure=None):
+        f = Func(self, fi.node, fi.module, closure, fi=fi, cls=fi.cls)
+        if not fi.node.decorator_list:
+            return f
+        if closure is None and id(fi.node) in self._decorated:
+            return self._decorated[id(fi.node)]
+        d = self.decorated(f, fi.node, closure if closure is not None else Frame(fi.module))
+        if closure is None:
+            self._decorated[id(fi.node)] = d
+        return d
+
+    def decorated(self, f, node, fr):
+        """apply the decorators that are defined in the repository (or locally): they are part of what the function does;
+        decorators from outside are the identity here unless they are modelled elsewhere (memoisation, contextmanager, ...)"""
+        for d in reversed(node.decorator_list):
+            if dotted(d).split(".")[-1] in self._DECO_SKIP:
+                continue
+            root = d.func if isinstance(d, ast.Call) else d
+            while isinstance(root, ast.Attribute):
+                root = root.value
+            if not isinstance(root, ast.Name):
+                continue
+            local, x = False, fr
+            while x is not None and not local:
+                local = root.id in x.vars
+                x = x.parent
+            r = self.pm.resolve(f.module if isinstance(f, Func) else fr.module, root.id)
+            if not local and (r is None or r[0] not in ("func", "class", "value", "module")):
+                continue
+            self.in_definition += 1          # decoration happens when the module is imported, not during the observed call
+            try:
+                dv = self.ev(d, fr)
+                if isinstance(dv, _OPQ):
+                    continue
+                f = self.call(dv, [f], {})
+            finally:
+                self.in_definition -= 1
+        return f
+
+    def ext(self, dotted_name):
+        """value of an external (non-repository) dotted name: a registered model, an attribute of one, a pure
+        standard-library function, or an ExtRef placeholder"""
+        if dotted_name in self.externals:
+            return self.externals[dotted_name]
+        parts = dotted_name.split(".")
+        for i in range(len(parts) - 1, 0, -1):          # attribute of a registered model
+            head = ".".join(parts[:i])
+            if head in self.externals and not isinstance(self.externals[head], ExtRef):
+                v = self.externals[head]
+                for a in parts[i:]:
+                    v = self.getattr(v, a)
+                return v
+        if dotted_name == "typing.TYPE_CHECKING":
+            return False
+        if dotted_name in _NATIVE_MODULES:
+            return ExtRef(dotted_name)                   # leaves are resolved one by one (impure ones are never native)
+        if dotted_name not in _IMPURE_NATIVE and (not dotted_name.startswith("os.path.") or parts[-1] in _PURE_OSPATH):
+            for i in range(len(parts) - 1, 0, -1):
+                head = ".".join(parts[:i])
+                if head in _NATIVE_MODULES:
+                    v = _NATIVE_MODULES[head]
+                    try:
+                        for a in parts[i:]:
+                            v = getattr(v, a)
+                    except AttributeError:
+                        break
+                    if isinstance(v, type(_math)):
+                        break
+                    return v
+        return ExtRef(dotted_name)
+
+    def global_name(self, module, name):
+        key = (module, name)
+        if key in self._globals:
+            return self._globals[key]
+        r = self.pm.resolve(module, name)
+        if r is None:
+            if name in _BEXC:
+                v = _BEXC[name]
+            else:
+                v = self.builtin(name)
+                if v is None and name not in ("None",):
+                    v = Unknown(name)
+            self._globals[key] = v
+            return v
+        kind, x = r
+        if kind in ("class", "func") and (x.name if kind == "class" else x.short) in self.overrides:
+            return self.overrides[x.name if kind == "class" else x.short]
+        if kind == "class":
+            v = self.class_val(x)
+        elif kind == "func":
+            v = self.func_val(x)
+        elif kind == "module":
+            v = ModVal(x)
+        elif kind == "ext":
+            v = self.ext(x)
+        else:
+            mi, expr = x
+            k2 = (mi.name, name)
+            if k2 in self._globals:
+                return self._globals[k2]
+            if k2 in self._pending:
+                raise Unsupported(f"cyclic module-level definition of {name}")
+            self._pending.add(k2)
+            before = self.choice_reads
+            self.in_definition += 1          # module-level code runs at import time, not during the observed call
+            try:
+                v = self.ev(expr, Frame(mi.name))
+            finally:
+                self.in_definition -= 1
+                self._pending.discard(k2)
+            if self.choice_reads != before:
+                return v                      # depends on an unknown condition: valid for this valuation only
+            self._globals[k2] = v
+        self._globals[key] = v
+        return v
+
+    def builtin(self, name):
+        if "builtins." + name in self.externals:
+            return self.externals["builtins." + name]
+        if name in _SAFE_BUILTINS:
+            return getattr(_bi, name)
+        m = getattr(self, "bi_" + name, None)
+        if m is not None:
+            return m
+        if name in ("True", "False", "None"):
+            return {"True": True, "False": False, "None": None}[name]
+        if name in ("NotImplemented", "Ellipsis"):
+            return getattr(_bi, name)
+        return None
+
+    def lookup(self, name, fr):
+        f = fr
+        while f is not None:
+            if name in f.vars:
+                return f.vars[name]
+            f = f.parent
+        return self.global_name(fr.module, name)
+
+    # ------------------------------------------------------------------ builtins needing the interpreter
+    def bi_print(self, *a, sep=" ", end="\n", file=None, flush=False):
+        if file is None or isinstance(file, ExtRef) and file.dotted in ("sys.stdout", "sys.stderr"):
+            return None
+        if isinstance(file, _OPQ):
+            raise Unsupported(f"print to an unknown stream {file!r}")
+        text = (" " if sep is None else sep).join(self.fmt(x, "s") if not isinstance(x, str) else x for x in a) + ("\n" if end is None else end)
+        self.call(self.getattr(file, "write"), [text], {})
+        return None
+
+    def bi_len(self, v):
+        if isinstance(v, ClassVal) and self.is_enum(v):
+            return len(self.enum_members(v))
+        if isinstance(v, Obj):
+            m = self.find_method(v, "__len__")
+            if m is None:
+                self.throw("TypeError", "object has no len()")
+            return self.call(m, [], {})
+        if isinstance(v, _OPQ):
+            return Unknown(f"len({v!r})")
+        return self.native(len, v)
+
+    def bi_isinstance(self, v, t):
+        return self.isinst(v, t)
+
+    def bi_issubclass(self, c, t):
+        ts = t if isinstance(t, tuple) else (t,)
+        if isinstance(c, (ClassVal, BuiltinExc)):
+            return any(isinstance(x, (ClassVal, BuiltinExc)) and x.name in c.mro_names() for x in ts)
+        if isinstance(c, type) and all(isinstance(x, type) for x in ts):
+            return issubclass(c, ts)
+        raise Unsupported("issubclass on model values")
+
+    def bi_getattr(self, o, name, *default):
+        try:
+            return self.getattr(o, name)
+        except PyExc as e:
+            if default and "AttributeError" in self.exc_names(e.val):
+                return default[0]
+            raise
+
+    def bi_hasattr(self, o, name):
+        try:
+            self.getattr(o, name)
+            return True
+        except PyExc as e:
+            if "AttributeError" in self.exc_names(e.val):
+                return False
+            raise
+
+    def bi_setattr(self, o, name, v):
+        self.setattr(o, name, v)
+
+    def bi_type(self, v):
+        if isinstance(v, Obj):
+            return v.cls
+        if isinstance(v, _OPQ):
+            return Unknown(f"type({v!r})")
+        for cv, t in self._nt.items():
+            if type(v) is t:
+                return self._classes[cv]
+        return type(v)
+
+    def bi_callable(self, v):
+        return isinstance(v, (Func, Bound, ClassVal, BuiltinExc)) or callable(v)
+
+    def bi_repr(self, v):
+        return self.fmt(v, "r")
+
+    def bi_id(self, v):
+        return id(v)
+
+    def bi_vars(self, v):
+        if isinstance(v, Obj):
+            return v.attrs
+        raise Unsupported("vars()")
+
+    def bi_super(self, *a):
+        raise Unsupported("super() outside a method")
+
+    def bi_open(self, *a, **k):
+        raise Unsupported("open() is not modelled here")
+
+    def bi_staticmethod(self, f):
+        return f
+
+    def bi_classmethod(self, f):
+        return f
+
+    def bi_property(self, f):
+        return f
+
+    # ------------------------------------------------------------------ values
+    def truth(self, v):
+        if isinstance(v, Obj):
+            for nm in ("__bool__", "__len__"):
+                m = self.find_method(v, nm)
+                if m is not None:
+                    return bool(self.call(m, [], {}))
+            return True
+        if isinstance(v, _OPQ):
+            return self.choose(f"bool({v!r})")
+        if isinstance(v, (ClassVal, BuiltinExc, Func, Bound, ModVal)):
+            return True
+        return bool(self.native(bool, v))
+
+    def fmt(self, v, conv=None, spec=""):
+        if isinstance(v, Obj):
+            if self.is_exc_obj(v):
+                if conv == "r":
+                    return repr(v)
+                a = v.attrs.get("args", ())
+                s = self.fmt(a[0]) if len(a) == 1 else (str(tuple(a)) if a else "")
+            else:
+                m = self.find_method(v, "__str__") if conv != "r" else self.find_method(v, "__repr__")
+                if m is None and "_name_" in v.attrs and isinstance(v.cls, ClassVal) and self.is_enum(v.cls):
+                    plain = self.enum_plain(v)
+                    s = str(plain) if plain is not v and conv != "r" and "StrEnum" in v.cls.mro_names() else f"{v.cls.name}.{v.attrs['_name_']}"
+                else:
+                    s = self.call(m, [], {}) if m is not None else repr(v)
+            return format(s, spec) if spec else s
+        if isinstance(v, (list, tuple, dict, set, frozenset)) and not spec:
+            return repr(v) if conv in (None, "r") else str(v)
+        if isinstance(v, (_OPQ, ClassVal, BuiltinExc, Func, Bound, ModVal)):
+            return repr(v)
+        if conv == "r":
+            v = repr(v)
+        elif conv == "a":
+            v = ascii(v)
+        elif conv == "s":
+            v = str(v)
+        return self.native(format, v, spec)
+
+    def isinst(self, v, t):
+        if isinstance(t, tuple):
+            return any(self.isinst(v, x) for x in t)
+        if isinstance(t, (ClassVal, BuiltinExc)):
+            if isinstance(v, Obj) and v.cls is not None:
+                return t.name in v.cls.mro_names()
+            if isinstance(t, ClassVal) and t.name in self._nt:
+                return type(v) is self._nt[t.name]
+            if isinstance(v, _OPQ):
+                return self.choose(f"isinstance({v!r}, {t.name})")
+            return False
+        if isinstance(t, _OPQ):
+            return self.isinstance_ext(v, t)
+        if isinstance(v, _OPQ):
+            return self.choose(f"isinstance({v!r}, {getattr(t, '__name__', t)})")
+        if isinstance(v, Obj):
+            return t is object
+        try:
+            return isinstance(v, t)
+        except TypeError:
+            return self.isinstance_ext(v, t)
+
+    def isinstance_ext(self, v, t):
+        """isinstance against an unmodelled external type"""
+        if isinstance(v, (bool, int, float, str, bytes, list, tuple, dict, set, frozenset, type(None), Obj)):
+            return False
+        return self.choose(f"isinstance({v!r}, {t!r})")
+
+    # ------------------------------------------------------------------ attributes
+    def find_method(self, obj, name):
+        """bound method `name` of an Obj defined in a repository class, or None"""
+        if not isinstance(obj, Obj) or not isinstance(obj.cls, ClassVal):
+            return None
+        fi = self.pm.find_method(obj.cls.ci.name, name)
+        if fi is None:
+            return None
+        return Bound(self.func_val(fi), obj)
+
+    def is_enum(self, cv):
+        return isinstance(cv, ClassVal) and any(n in ("Enum", "IntEnum", "StrEnum", "Flag", "IntFlag") for n in cv.mro_names())
+
+    def enum_members(self, cv):
+        ms = cv.statics.get("__members__")
+        if ms is None:
+            ms, last = {}, 0
+            names = cv.mro_names()
+            for nm, expr in cv.ci.class_assigns.items():
+                if nm.startswith("_") or (nm in cv.ci.fields and cv.ci.fields[nm].value is None):
+                    continue
+                if isinstance(expr, ast.Call) and dotted(expr.func).split(".")[-1] == "auto":
+                    val = nm.lower() if "StrEnum" in names else (last + 1 if isinstance(last, int) else 1)
+                else:
+                    val = self.ev(expr, Frame(cv.ci.module))
+                last = val
+                ms[nm] = Obj(cv, {"name": nm, "value": val, "_name_": nm, "_value_": val})
+            cv.statics["__members__"] = ms
+        return ms
+
+    def enum_plain(self, v):
+        """the value an enum member with a str/int mix-in compares as"""
+        if isinstance(v, Obj) and isinstance(v.cls, ClassVal) and "_value_" in v.attrs and self.is_enum(v.cls) \
+                and any(n in ("str", "int", "StrEnum", "IntEnum", "IntFlag") for n in v.cls.mro_names()):
+            return v.attrs["_value_"]
+        return v
+
+    def class_attr(self, cv, name, recv=None):
+        """attribute looked up on the class (through the MRO); recv = instance for binding"""
+        if name in cv.statics:
+            return cv.statics[name]
+        if self.is_enum(cv):
+            ms = self.enum_members(cv)
+            if name in ms:
+                return ms[name]
+            if name == "__members__":
+                return ms
+        for c in self.pm.mro(cv.ci.name):
+            ci = self.pm.classes.get(c)
+            if ci is None:
+                continue
+            if c != cv.ci.name:
+                st = self.class_val(ci).statics
+                if name in st:
+                    return st[name]
+            if name in ci.methods:
+                fi = ci.methods[name]
+                f = self.func_val(fi)
+                if "staticmethod" in fi.decorators or not isinstance(f, Func):
+                    return f
+                if fi.is_classmethod:
+                    return Bound(f, cv)
+                if any(d.split(".")[-1] in ("property", "cached_property", "computed_field") for d in fi.decorators):
+                    if recv is not None:
+                        return self.call(Bound(f, recv), [], {})
+                    return f
+                return Bound(f, recv) if recv is not None else f
+            if name in ci.class_assigns:
+                v = self.field_default(ci.class_assigns[name], Frame(ci.module)) if name in ci.fields else self.ev(ci.class_assigns[name], Frame(ci.module))
+                if v is NotImplemented:
+                    continue
+                self.class_val(ci).statics[name] = v
+                return v
+        raise KeyError(name)
+
+    def getattr(self, o, name):
+        if isinstance(o, Obj):
+            if name in o.attrs:
+                return o.attrs[name]
+            if name == "__dict__":
+                return o.attrs
+            if name == "__class__":
+                return o.cls
+            if isinstance(o.cls, ClassVal):
+                try:
+                    return self.class_attr(o.cls, name, recv=o)
+                except KeyError:
+                    pass
+                v = self.model_attr(o, name)
+                if v is not NotImplemented:
+                    return v
+            self.throw("AttributeError", f"'{o.cls.name if o.cls is not None else 'namespace'}' object has no attribute '{name}'")
+        if isinstance(o, ClassVal):
+            if name in ("__name__", "__qualname__"):
+                return o.name
+            try:
+                return self.class_attr(o, name)
+            except KeyError:
+                v = self.model_class_attr(o, name)
+                if v is not NotImplemented:
+                    return v
+                self.throw("AttributeError", f"type object '{o.name}' has no attribute '{name}'")
+        if isinstance(o, BuiltinExc):
+            if name in ("__name__", "__qualname__"):
+                return o.name
+            self.throw("AttributeError", name)
+        if isinstance(o, ModVal):
+            return self.global_name(o.mi.name, name)
+        if isinstance(o, ExtRef):
+            return self.ext(o.dotted + "." + name)
+        if isinstance(o, Unknown):
+            return Unknown(f"{o.label}.{name}")
+        if isinstance(o, SuperProxy):
+            return self.super_attr(o, name)
+        if isinstance(o, (Func, Bound)):
+            if name in ("__name__", "__qualname__"):
+                return (o.func if isinstance(o, Bound) else o).name
+            self.throw("AttributeError", name)
+        try:
+            return getattr(o, name)
+        except AttributeError:
+            self.throw("AttributeError", f"'{type(o).__name__}' object has no attribute '{name}'")
+
+    def model_attr(self, o, name):
+        return NotImplemented
+
+    def model_class_attr(self, cv, name):
+        return NotImplemented
+
+    def super_attr(self, sp, name):
+        obj, after = sp.obj, sp.after
+        cv = obj.cls if isinstance(obj, Obj) else obj
+        mro = self.pm.mro(cv.ci.name)
+        rest = mro[mro.index(after) + 1:] if after in mro else []
+        for c in rest:
+            ci = self.pm.classes.get(c)
+            if ci is not None and name in ci.methods:
+                fi = ci.methods[name]
+                f = self.func_val(fi)
+                if "staticmethod" in fi.decorators:
+                    return f
+                return Bound(f, cv if fi.is_classmethod else obj)
+        return self.super_fallback(obj, name, rest)
+
+    def super_fallback(self, obj, name, rest):
+        if name == "__init__":
+            return lambda *a, **k: self.base_init(obj, a, k)
+        raise Unsupported(f"super().{name} resolves outside the repository")
+
+    def base_init(self, obj, a, k):
+        """object.__init__ / external base __init__"""
+        if a or k:
+            raise Unsupported(f"external base __init__ of {obj.cls.name} with arguments")
+        return None
+
+    def setattr(self, o, name, v):
+        if isinstance(o, Obj):
+            o.attrs[name] = v
+        elif isinstance(o, ClassVal):
+            o.statics[name] = v
+        elif isinstance(o, (_OPQ, ModVal, Func, Bound, BuiltinExc)):
+            raise Unsupported(f"attribute store on {o!r}")
+        else:
+            self.native(setattr, o, name, v)
+
+    # ------------------------------------------------------------------ calls
+    def before_call(self, node, f, args, kwargs):
+        """hook: called before every call made by interpreted code (fault injection)"""
+
+    def call(self, f, args, kwargs, node=None):
+        if isinstance(f, Bound):
+            return self.call_func(f.func, [f.recv] + list(args), kwargs)
+        if isinstance(f, Func):
+            return self.call_func(f, list(args), kwargs)
+        if isinstance(f, ClassVal):
+            return self.instantiate(f, list(args), kwargs)
+        if isinstance(f, BuiltinExc):
+            return Obj(f, {"args": tuple(args)})
+        if isinstance(f, ExtRef):
+            return self.call_ext(f, args, kwargs)
+        if isinstance(f, Unknown):
+            return Unknown(f"{f.label}(…)")
+        if isinstance(f, Obj):
+            m = self.find_method(f, "__call__")
+            if m is None:
+                self.throw("TypeError", "object is not callable")
+            return self.call(m, args, kwargs)
+        if not callable(f):
+            self.throw("TypeError", f"'{type(f).__name__}' object is not callable")
+        if isinstance(f, type) and f in (int, float, str, bool, list, tuple, dict, set, frozenset) and args and isinstance(args[0], Obj):
+            if f is str:
+                return self.fmt(args[0])
+            if f is bool:
+                return self.truth(args[0])
+            raise Unsupported(f"{f.__name__}() of a model object")
+        if f in (str, repr) and args and isinstance(args[0], (_OPQ, ClassVal, BuiltinExc)):
+            return self.fmt(args[0])
+        if f is bool and args and isinstance(args[0], _OPQ):
+            return self.truth(args[0])
+        if f in (sorted, min, max) and any(isinstance(x, _OPQ) for x in args):
+            return Unknown(f"{f.__name__}(…)")
+        return self.native(f, *args, **kwargs)
+
+    STRICT_EXT = ("shutil.", "os.", "tempfile.", "io.", "pathlib.", "subprocess.", "fileinput.", "glob.", "zipfile.", "tarfile.", "mmap.",
+                  "codecs.open", "builtins.")
+
+    def call_ext(self, f, args, kwargs):
+        vals = list(args) + list(kwargs.values())
+        if any(isinstance(x, _Model) for x in vals) or any(isinstance(y, _Model) for x in vals if isinstance(x, (list, tuple)) for y in x):
+            raise Unsupported(f"unmodelled external {f.dotted} is applied to a model object")
+        if f.dotted.startswith(self.STRICT_EXT):
+            raise Unsupported(f"call of unmodelled external {f.dotted} (may touch the file system)")
+        if self.lenient:
+            self.notes.append(f"unmodelled external call {f.dotted}")
+            return Unknown(f"{f.dotted}(…)")
+        raise Unsupported(f"call of unmodelled external {f.dotted}")
+
+    def bind(self, func, args, kwargs):
+        a = func.node.args
+        fr = Frame(func.module, parent=func.closure, func=func)
+        pos = list(a.posonlyargs) + list(a.args)
+        defaults = [None] * (len(pos) - len(a.defaults)) + list(a.defaults)
+        args = list(args)
+        kwargs = dict(kwargs)
+        for i, p in enumerate(pos):
+            if i < len(args):
+                if p.arg in kwargs and p not in a.posonlyargs:
+                    self.throw("TypeError", f"{func.name}() got multiple values for argument '{p.arg}'")
+                fr.vars[p.arg] = args[i]
+            elif p.arg in kwargs and p not in a.posonlyargs:
+                fr.vars[p.arg] = kwargs.pop(p.arg)
+            elif defaults[i] is not None:
+                fr.vars[p.arg] = self.ev(defaults[i], Frame(func.module, parent=func.closure))
+            else:
+                self.throw("TypeError", f"{func.name}() missing required argument '{p.arg}'")
+        extra = args[len(pos):]
+        if a.vararg is not None:
+            fr.vars[a.vararg.arg] = tuple(extra)
+        elif extra:
+            self.throw("TypeError", f"{func.name}() takes {len(pos)} positional arguments but {len(args)} were given")
+        for p, d in zip(a.kwonlyargs, a.kw_defaults):
+            if p.arg in kwargs:
+                fr.vars[p.arg] = kwargs.pop(p.arg)
+            elif d is not None:
+                fr.vars[p.arg] = self.ev(d, Frame(func.module, parent=func.closure))
+            else:
+                self.throw("TypeError", f"{func.name}() missing keyword-only argument '{p.arg}'")
+        if a.kwarg is not None:
+            fr.vars[a.kwarg.arg] = kwargs
+        elif kwargs:
+            self.throw("TypeError", f"{func.name}() got an unexpected keyword argument '{sorted(kwargs)[0]}'")
+        return fr
+
+    def call_func(self, func, args, kwargs):
+        fr = self.bind(func, args, kwargs)
+        if isinstance(func.node, ast.Lambda):
+            return self.ev(func.node.body, fr)
+        if self.depth > 60:
+            raise Unsupported("interpretation depth exceeded in " + func.name)
+        if any(d.split(".")[-1] in ("lru_cache", "cache") for d in func.decos) and not func.is_gen:
+            # functools memoisation is part of the observable behaviour (stale results): model it faithfully
+            try:
+                key = (id(func.node), tuple(args), tuple(sorted(kwargs.items())))
+                hash(key)
+            except TypeError:
+                self.throw("TypeError", "unhashable argument to a memoised function")
+            if key not in self._memo:
+                self._memo[key] = self._run_body(func, fr)
+            return self._memo[key]
+        return self._run_body(func, fr)
+
+    def _run_body(self, func, fr):
+        if func.is_gen:
+            g = self.gen_body(func, fr)
+            if any(d.split(".")[-1] == "contextmanager" for d in func.decos):
+                return GenCM(g)
+            return g
+        self.depth += 1
+        try:
+            for _ in self.block(func.node.body, fr):
+                raise Unsupported("yield in a non-generator context")
+        except _Return as r:
+            return r.v
+        finally:
+            self.depth -= 1
+        return None
+
+    def gen_body(self, func, fr):
+        try:
+            yield from self.block(func.node.body, fr)
+        except _Return:
+            return
+
+    def instantiate(self, cv, args, kwargs):
+        names = cv.mro_names()
+        if "BaseException" in names:
+            o = Obj(cv, {"args": tuple(args)})
+            init = self.pm.find_method(cv.ci.name, "__init__")
+            if init is not None:
+                self.call_func(self.func_val(init), [o] + args, kwargs)
+            return o
+        if "NamedTuple" in names:
+            t = self._nt.get(cv.name)
+            if t is None:
+                flds = list(self.pm.all_fields(cv.ci.name))
+                dfl = [self.ev(cv.ci.class_assigns[f], Frame(cv.ci.module)) for f in flds if f in cv.ci.class_assigns]
+                t = self._nt[cv.name] = _collections.namedtuple(cv.name, flds, defaults=dfl or None)
+            return self.native(t, *args, **kwargs)
+        if "BaseModel" in names:
+            return self.make_model(cv, args, kwargs)
+        if any(d.split(".")[-1] == "dataclass" for d in [dotted(x) for x in cv.ci.node.decorator_list]):
+            o = Obj(cv, {})
+            flds = self.pm.all_fields(cv.ci.name)
+            it = iter(args)
+            for nm, decl in flds.items():
+                if "ClassVar" in unparse(decl.annotation):
+                    continue
+                try:
+                    o.attrs[nm] = next(it)
+                    continue
+                except StopIteration:
+                    pass
+                if nm in kwargs:
+                    o.attrs[nm] = kwargs[nm]
+                elif decl.value is not None:
+                    o.attrs[nm] = self.field_default(decl.value, Frame(cv.ci.module))
+                else:
+                    self.throw("TypeError", f"{cv.name}() missing argument '{nm}'")
+            m = self.find_method(o, "__post_init__")
+            if m is not None:
+                self.call(m, [], {})
+            return o
+        if self.is_enum(cv):
+            if len(args) != 1 or kwargs:
+                self.throw("TypeError", f"{cv.name}() takes exactly one value")
+            for m in self.enum_members(cv).values():
+                if m is args[0] or (not isinstance(args[0], (Obj, ) + _OPQ) and self.compare(ast.Eq(), m.attrs["_value_"], args[0])):
+                    return m
+            if isinstance(args[0], _OPQ):
+                raise Unsupported(f"{cv.name}(<unknown value>)")
+            self.throw("ValueError", f"{args[0]!r} is not a valid {cv.name}")
+        if any(n in names for n in ("Protocol", "TypedDict")):
+            raise Unsupported(f"instantiation of {cv.name}")
+        o = Obj(cv, {})
+        init = self.pm.find_method(cv.ci.name, "__init__")
+        if init is not None:
+            self.call_func(self.func_val(init), [o] + args, kwargs)
+        elif args or kwargs:
+            ext = [n for n in names if n not in self.pm.classes and n != "object"]
+            if ext:
+                raise Unsupported(f"{cv.name}(...) initialised by external base {ext[0]}")
+            self.throw("TypeError", f"{cv.name}() takes no arguments")
+        return o
+
+    def field_default(self, expr, fr):
+        """default of a dataclass / pydantic field declaration"""
+        if isinstance(expr, ast.Call) and dotted(expr.func).split(".")[-1] in ("field", "Field"):
+            for k in expr.keywords:
+                if k.arg == "default":
+                    return self.ev(k.value, fr)
+                if k.arg == "default_factory":
+                    return self.call(self.ev(k.value, fr), [], {})
+            if expr.args and dotted(expr.func).split(".")[-1] == "Field":
+                if isinstance(expr.args[0], ast.Constant) and expr.args[0].value is Ellipsis:
+                    return NotImplemented
+                return self.ev(expr.args[0], fr)
+            return NotImplemented
+        return self.ev(expr, fr)
+
+    def make_model(self, cv, args, kwargs):
+        raise Unsupported(f"construction of pydantic model {cv.name} is not modelled here")
+
+    # ------------------------------------------------------------------ statements (generators: a repository generator
+    # function maps onto a Python generator, so `with` over @contextmanager functions and try/finally behave faithfully)
+    def block(self, stmts, fr):
+        for s in stmts:
+            yield from self.stmt(s, fr)
+
+    def tick(self):
+        self.steps += 1
+        if self.steps > self.MAX_STEPS:
+            raise Unsupported("step budget exceeded (unbounded loop on model inputs?)")
+
+    def stmt(self, s, fr):
+        self.tick()
+        if isinstance(s, ast.Expr):
+            if isinstance(s.value, (ast.Yield, ast.YieldFrom)):
+                yield from self.do_yield(s.value, fr)
+            elif not isinstance(s.value, ast.Constant):
+                self.ev(s.value, fr)
+        elif isinstance(s, ast.Assign):
+            if isinstance(s.value, (ast.Yield, ast.YieldFrom)):
+                v = yield from self.do_yield(s.value, fr)
+            else:
+                v = self.ev(s.value, fr)
+            for t in s.targets:
+                self.assign(t, v, fr)
+        elif isinstance(s, ast.AnnAssign):
+            if s.value is not None:
+                self.assign(s.target, self.ev(s.value, fr), fr)
+        elif isinstance(s, ast.AugAssign):
+            cur = self.ev(_load(s.target), fr)
+            v = self.ev(s.value, fr)
+            if isinstance(s.op, ast.Add) and isinstance(cur, list) and not isinstance(v, _OPQ):
+                self.native(cur.extend, v)          # in-place semantics of list +=
+                self.assign(s.target, cur, fr)
+            else:
+                self.assign(s.target, self.binop(s.op, cur, v), fr)
+        elif isinstance(s, ast.Return):
+            raise _Return(self.ev(s.value, fr) if s.value is not None else None)
+        elif isinstance(s, ast.If):
+            yield from self.block(s.body if self.truth(self.ev(s.test, fr)) else s.orelse, fr)
+        elif isinstance(s, ast.For):
+            it = self.iterate(self.ev(s.iter, fr))
+            broke = False
+            for x in it:
+                self.tick()
+                self.assign(s.target, x, fr)
+                try:
+                    yield from self.block(s.body, fr)
+                except _Continue:
+                    continue
+                except _Break:
+                    broke = True
+                    break
+            if not broke:
+                yield from self.block(s.orelse, fr)
+        elif isinstance(s, ast.While):
+            broke = False
+            while self.truth(self.ev(s.test, fr)):
+                self.tick()
+                try:
+                    yield from self.block(s.body, fr)
+                except _Continue:
+                    continue
+                except _Break:
+                    broke = True
+                    break
+            if not broke:
+                yield from self.block(s.orelse, fr)
+        elif isinstance(s, ast.Raise):
+            if s.exc is None:
+                if not self.exc_stack:
+                    self.throw("RuntimeError", "No active exception to re-raise")
+                raise PyExc(self.exc_stack[-1])
+            e = self.ev(s.exc, fr)
+            if isinstance(e, (ClassVal, BuiltinExc)):
+                e = self.call(e, [], {})
+            if isinstance(e, _OPQ):
+                e = Obj(BuiltinExc(repr(e)), {"args": ()})
+            if not self.is_exc_obj(e):
+                self.throw("TypeError", "exceptions must derive from BaseException")
+            if s.cause is not None:
+                e.attrs["__cause__"] = self.ev(s.cause, fr)
+            raise PyExc(e)
+        elif isinstance(s, ast.Try):
+            yield from self.do_try(s, fr)
+        elif isinstance(s, ast.With):
+            yield from self.do_with(s, 0, fr)
+        elif isinstance(s, ast.Assert):
+            if not self.truth(self.ev(s.test, fr)):
+                self.throw("AssertionError", *( [self.ev(s.msg, fr)] if s.msg is not None else []))
+        elif isinstance(s, (ast.Pass, ast.Global)):
+            pass
+        elif isinstance(s, ast.Nonlocal):
+            fr.outer_names.update(s.names)
+        elif isinstance(s, ast.Break):
+            raise _Break()
+        elif isinstance(s, ast.Continue):
+            raise _Continue()
+        elif isinstance(s, (ast.FunctionDef, ast.AsyncFunctionDef)):
+            fi = self.pm.func_by_node.get(id(s))
+            f = Func(self, s, fr.module, fr, fi=fi, cls=None)
+            fr.vars[s.name] = self.decorated(f, s, fr) if s.decorator_list else f
+        elif isinstance(s, ast.Import):
+            for a in s.names:
+                nm = (a.asname or a.name.split(".")[0])
+                target = a.name if a.asname else a.name.split(".")[0]
+                fr.vars[nm] = ModVal(self.pm.modules[target]) if target in self.pm.modules else self.ext(target)
+        elif isinstance(s, ast.ImportFrom):
+            mi = self.pm.modules.get(fr.module)
+            base = self.pm._resolve_from(mi, s) if mi is not None else (s.module or "")
+            for a in s.names:
+                nm = a.asname or a.name
+                if f"{base}.{a.name}" in self.pm.modules:
+                    fr.vars[nm] = ModVal(self.pm.modules[f"{base}.{a.name}"])
+                elif base in self.pm.modules:
+                    fr.vars[nm] = self.global_name(base, a.name)
+                else:
+                    fr.vars[nm] = self.ext(f"{base}.{a.name}")
+        elif isinstance(s, ast.Delete):
+            for t in s.targets:
+                if isinstance(t, ast.Name):
+                    fr.vars.pop(t.id, None)
+                elif isinstance(t, ast.Subscript):
+                    self.native(_operator.delitem, self.ev(t.value, fr), self.ev_slice(t.slice, fr))
+                elif isinstance(t, ast.Attribute):
+                    o = self.ev(t.value, fr)
+                    if isinstance(o, Obj):
+                        o.attrs.pop(t.attr, None)
+                    else:
+                        raise Unsupported("del of attribute")
+        elif isinstance(s, ast.Match):
+            subj = self.ev(s.subject, fr)
+            for case in s.cases:
+                if self.match_pattern(case.pattern, subj, fr) and (case.guard is None or self.truth(self.ev(case.guard, fr))):
+                    yield from self.block(case.body, fr)
+                    break
+        else:
+            raise Unsupported("statement " + type(s).__name__)
+
+    def do_yield(self, y, fr):
+        if isinstance(y, ast.YieldFrom):
+            r = yield from self.iterate(self.ev(y.value, fr))
+            return r
+        v = self.ev(y.value, fr) if y.value is not None else None
+        sent = yield v
+        return sent
+
+    def do_try(self, s, fr):
+        try:
+            try:
+                yield from self.block(s.body, fr)
+            except PyExc as e:
+                names = self.exc_names(e.val)
+                for h in s.handlers:
+                    if h.type is None:
+                        ok = True
+                    else:
+                        t = self.ev(h.type, fr)
+                        ts = t if isinstance(t, tuple) else (t,)
+                        ok = False
+                        for x in ts:
+                            if isinstance(x, (ClassVal, BuiltinExc)):
+                                ok = ok or x.name in names
+                            elif isinstance(x, _OPQ):
+                                ok = ok or self.choose(f"except {x!r} catches {names[0]}")
+                            else:
+                                raise Unsupported("except clause type " + repr(x))
+                    if ok:
+                        if h.name:
+                            fr.vars[h.name] = e.val
+                        self.exc_stack.append(e.val)
+                        try:
+                            yield from self.block(h.body, fr)
+                        finally:
+                            self.exc_stack.pop()
+                        break
+                else:
+                    raise
+            else:
+                yield from self.block(s.orelse, fr)
+        finally:
+            if s.finalbody:
+                # a return/raise inside finally replaces the pending outcome, as in Python
+                for _ in self.block(s.finalbody, fr):
+                    raise Unsupported("yield inside finally")
+
+    def do_with(self, s, i, fr):
+        if i == len(s.items):
+            yield from self.block(s.body, fr)
+            return
+        item = s.items[i]
+        cm = self.ev(item.context_expr, fr)
+        val = self.cm_enter(cm)
+        if item.optional_vars is not None:
+            self.assign(item.optional_vars, val, fr)
+        try:
+            yield from self.do_with(s, i + 1, fr)
+        except PyExc as e:
+            if not self.cm_exit(cm, e.val):
+                raise
+        except (_Return, _Break, _Continue):
+            self.cm_exit(cm, None)
+            raise
+        else:
+            self.cm_exit(cm, None)
+
+    def cm_enter(self, cm):
+        if isinstance(cm, GenCM):
+            try:
+                return next(cm.gen)
+            except StopIteration:
+                self.throw("RuntimeError", "generator didn't yield")
+        if isinstance(cm, Obj):
+            m = self.find_method(cm, "__enter__")
+            if m is None:
+                self.throw("TypeError", "object does not support the context manager protocol")
+            return self.call(m, [], {})
+        if isinstance(cm, _OPQ):
+            if self.lenient:
+                return Unknown(f"{cm!r}.__enter__()")
+            raise Unsupported(f"with over unmodelled {cm!r}")
+        if hasattr(cm, "__enter__"):
+            return cm.__enter__()
+        self.throw("TypeError", f"'{type(cm).__name__}' object does not support the context manager protocol")
+
+    def cm_exit(self, cm, exc):
+        """returns True if the exception is swallowed"""
+        if isinstance(cm, GenCM):
+            if exc is None:
+                try:
+                    next(cm.gen)
+                except StopIteration:
+                    return False
+                self.throw("RuntimeError", "generator didn't stop")
+            try:
+                cm.gen.throw(PyExc(exc))
+            except StopIteration:
+                return True
+            except PyExc as e2:
+                if e2.val is exc:
+                    return False
+                raise
+            self.throw("RuntimeError", "generator didn't stop after throw()")
+        if isinstance(cm, Obj):
+            m = self.find_method(cm, "__exit__")
+            a = [None, None, None] if exc is None else [exc.cls, exc, None]
+            return bool(self.truth(self.call(m, a, {}))) if m is not None else False
+        if isinstance(cm, _OPQ):
+            return False
+        a = (None, None, None) if exc is None else (exc.cls, exc, None)
+        return bool(cm.__exit__(*a))
+
+    def match_pattern(self, p, v, fr):
+        if isinstance(p, ast.MatchValue):
+            return self.compare(ast.Eq(), v, self.ev(p.value, fr))
+        if isinstance(p, ast.MatchSingleton):
+            return v is p.value
+        if isinstance(p, ast.MatchOr):
+            return any(self.match_pattern(x, v, fr) for x in p.patterns)
+        if isinstance(p, ast.MatchAs):
+            if p.pattern is not None and not self.match_pattern(p.pattern, v, fr):
+                return False
+            if p.name:
+                fr.vars[p.name] = v
+            return True
+        if isinstance(p, ast.MatchSequence) and isinstance(v, (list, tuple)) and not any(isinstance(x, ast.MatchStar) for x in p.patterns):
+            return len(v) == len(p.patterns) and all(self.match_pattern(x, y, fr) for x, y in zip(p.patterns, v))
+        raise Unsupported("match pattern " + type(p).__name__)
+
+    def iterate(self, v):
+        if isinstance(v, ClassVal) and self.is_enum(v):
+            return iter(list(self.enum_members(v).values()))
+        if isinstance(v, Obj):
+            m = self.find_method(v, "__iter__")
+            if m is None:
+                self.throw("TypeError", f"'{v.cls.name}' object is not iterable")
+            return self.iterate(self.call(m, [], {}))
+        if isinstance(v, _OPQ):
+            raise Unsupported(f"iteration over unknown value {v!r}")
+        try:
+            return iter(v)
+        except TypeError:
+            self.throw("TypeError", f"'{type(v).__name__}' object is not iterable")
+
+    def assign(self, t, v, fr):
+        if isinstance(t, ast.Name):
+            f = fr
+            if t.id in fr.outer_names:
+                f = fr.parent
+                while f is not None and t.id not in f.vars:
+                    f = f.parent
+                f = f or fr
+            f.vars[t.id] = v
+        elif isinstance(t, (ast.Tuple, ast.List)):
+            if isinstance(v, _OPQ):
+                for i, e in enumerate(t.elts):
+                    self.assign(e.value if isinstance(e, ast.Starred) else e, Unknown(f"{v!r}[{i}]"), fr)
+                return
+            vals = list(self.iterate(v))
+            star = [i for i, e in enumerate(t.elts) if isinstance(e, ast.Starred)]
+            if star:
+                i = star[0]
+                after = len(t.elts) - i - 1
+                if len(vals) < len(t.elts) - 1:
+                    self.throw("ValueError", "not enough values to unpack")
+                for e, x in zip(t.elts[:i], vals[:i]):
+                    self.assign(e, x, fr)
+                self.assign(t.elts[i].value, vals[i:len(vals) - after], fr)
+                for e, x in zip(t.elts[i + 1:], vals[len(vals) - after:]):
+                    self.assign(e, x, fr)
+            else:
+                if len(vals) != len(t.elts):
+                    self.throw("ValueError", f"cannot unpack {len(vals)} values into {len(t.elts)} targets")
+                for e, x in zip(t.elts, vals):
+                    self.assign(e, x, fr)
+        elif isinstance(t, ast.Attribute):
+            self.setattr(self.ev(t.value, fr), t.attr, v)
+        elif isinstance(t, ast.Subscript):
+            base = self.ev(t.value, fr)
+            k = self.ev_slice(t.slice, fr)
+            if isinstance(base, Obj):
+                m = self.find_method(base, "__setitem__")
+                if m is None:
+                    self.throw("TypeError", "object does not support item assignment")
+                self.call(m, [k, v], {})
+            elif isinstance(base, _OPQ):
+                raise Unsupported(f"item store on {base!r}")
+            else:
+                self.native(_operator.setitem, base, k, v)
+        elif isinstance(t, ast.Starred):
+            self.assign(t.value, v, fr)
+        else:
+            raise Unsupported("assignment target " + type(t).__name__)
+
+    # ------------------------------------------------------------------ expressions
+    def ev(self, n, fr):
+        m = getattr(self, "ev_" + type(n).__name__, None)
+        if m is None:
+            raise Unsupported("expression " + type(n).__name__)
+        return m(n, fr)
+
+    def ev_Constant(self, n, fr):
+        return n.value
+
+    def ev_Name(self, n, fr):
+        return self.lookup(n.id, fr)
+
+    def ev_Attribute(self, n, fr):
+        return self.getattr(self.ev(n.value, fr), n.attr)
+
+    def ev_slice(self, s, fr):
+        if isinstance(s, ast.Slice):
+            return slice(*(self.ev(x, fr) if x is not None else None for x in (s.lower, s.upper, s.step)))
+        return self.ev(s, fr)
+
+    def ev_Slice(self, n, fr):
+        return self.ev_slice(n, fr)
+
+    def ev_Subscript(self, n, fr):
+        base = self.ev(n.value, fr)
+        k = self.ev_slice(n.slice, fr)
+        return self.getitem(base, k)
+
+    def getitem(self, base, k):
+        if isinstance(base, Obj):
+            m = self.find_method(base, "__getitem__")
+            if m is None:
+                self.throw("TypeError", f"'{base.cls.name if base.cls else 'namespace'}' object is not subscriptable")
+            return self.call(m, [k], {})
+        if isinstance(base, _OPQ):
+            return Unknown(f"{base!r}[{k!r}]")
+        if isinstance(base, ClassVal) and self.is_enum(base):
+            ms = self.enum_members(base)
+            if k not in ms:
+                self.throw("KeyError", k)
+            return ms[k]
+        if isinstance(base, (ClassVal, BuiltinExc)):
+            return base                                   # generic alias C[T]
+        k = self.enum_plain(k)
+        if isinstance(k, _OPQ) or (isinstance(k, slice) and any(isinstance(x, _OPQ) for x in (k.start, k.stop, k.step))):
+            return Unknown(f"…[{k!r}]")
+        return self.native(_operator.getitem, base, k)
+
+    def ev_BoolOp(self, n, fr):
+        v = None
+        for e in n.values:
+            v = self.ev(e, fr)
+            t = self.truth(v)
+            if isinstance(n.op, ast.And) and not t:
+                return v
+            if isinstance(n.op, ast.Or) and t:
+                return v
+        return v
+
+    def ev_UnaryOp(self, n, fr):
+        v = self.ev(n.operand, fr)
+        if isinstance(n.op, ast.Not):
+            return not self.truth(v)
+        if isinstance(v, _OPQ):
+            return Unknown(f"-{v!r}")
+        return self.native({ast.USub: _operator.neg, ast.UAdd: _operator.pos, ast.Invert: _operator.invert}[type(n.op)], v)
+
+    def ev_BinOp(self, n, fr):
+        return self.binop(n.op, self.ev(n.left, fr), self.ev(n.right, fr))
+
+    def binop(self, op, l, r):
+        if isinstance(op, ast.BitOr) and any(isinstance(x, (ClassVal, BuiltinExc, _OPQ)) or x is None for x in (l, r)) \
+                and all(isinstance(x, (ClassVal, BuiltinExc, type, tuple, _OPQ)) or x is None for x in (l, r)):
+            flat = []
+            for x in (l, r):
+                flat.extend(x if isinstance(x, tuple) else [type(None) if x is None else x])
+            return tuple(flat)                            # X | Y used as a type union
+        if isinstance(l, _OPQ) or isinstance(r, _OPQ):
+            return Unknown(f"({l!r} {type(op).__name__} {r!r})")
+        if isinstance(l, Obj) or isinstance(r, Obj):
+            nm = {ast.Add: "add", ast.Sub: "sub", ast.Mult: "mul", ast.Div: "truediv", ast.Mod: "mod", ast.FloorDiv: "floordiv"}.get(type(op))
+            if nm and isinstance(l, Obj) and self.find_method(l, f"__{nm}__"):
+                return self.call(self.find_method(l, f"__{nm}__"), [r], {})
+            if nm and isinstance(r, Obj) and self.find_method(r, f"__r{nm}__"):
+                return self.call(self.find_method(r, f"__r{nm}__"), [l], {})
+            if isinstance(op, ast.Mod) and isinstance(l, str):
+                return self.native(_operator.mod, l, self.fmt(r))
+            self.throw("TypeError", "unsupported operand type(s)")
+        return self.native(_BINOPS[type(op)], l, r)
+
+    def ev_Compare(self, n, fr):
+        left = self.ev(n.left, fr)
+        for op, rn in zip(n.ops, n.comparators):
+            right = self.ev(rn, fr)
+            if not self.compare(op, left, right):
+                return False
+            left = right
+        return True
+
+    def compare(self, op, l, r):
+        if isinstance(op, (ast.Is, ast.IsNot)):
+            if (isinstance(l, _OPQ) or isinstance(r, _OPQ)) and l is not r:
+                if any(x is None or isinstance(x, (bool, int, str)) for x in (l, r)):
+                    res = self.choose(f"{l!r} is {r!r}")
+                    return res if isinstance(op, ast.Is) else not res
+            return (l is r) if isinstance(op, ast.Is) else (l is not r)
+        if isinstance(op, (ast.In, ast.NotIn)):
+            res = self.contains(r, l)
+            return res if isinstance(op, ast.In) else not res
+        if l is not r:
+            l, r = self.enum_plain(l), self.enum_plain(r)
+        if isinstance(l, _OPQ) or isinstance(r, _OPQ):
+            if l is r and isinstance(op, (ast.Eq, ast.NotEq)):
+                return isinstance(op, ast.Eq)
+            res = self.choose(f"{l!r} {type(op).__name__} {r!r}")
+            return bool(res)
+        if isinstance(l, Obj) or isinstance(r, Obj):
+            nm = {ast.Eq: "__eq__", ast.NotEq: "__ne__", ast.Lt: "__lt__", ast.LtE: "__le__", ast.Gt: "__gt__", ast.GtE: "__ge__"}[type(op)]
+            if isinstance(l, Obj) and self.find_method(l, nm):
+                return self.truth(self.call(self.find_method(l, nm), [r], {}))
+            if isinstance(op, ast.Eq):
+                return l is r
+            if isinstance(op, ast.NotEq):
+                return l is not r
+            self.throw("TypeError", "ordering of objects not supported")
+        return bool(self.native(_CMPOPS[type(op)], l, r))
+
+    def contains(self, container, x):
+        if isinstance(container, ClassVal) and self.is_enum(container):
+            return any(m is x or (not isinstance(x, Obj) and self.compare(ast.Eq(), m.attrs["_value_"], x)) for m in self.enum_members(container).values())
+        x = self.enum_plain(x)
+        if isinstance(container, Obj):
+            m = self.find_method(container, "__contains__")
+            if m is not None:
+                return self.truth(self.call(m, [x], {}))
+            return any(self.compare(ast.Eq(), y, x) for y in self.iterate(container))
+        if isinstance(container, _OPQ):
+            return self.choose(f"{x!r} in {container!r}")
+        if isinstance(x, _OPQ):
+            try:
+                if len(container) == 0:
+                    return False
+            except TypeError:
+                pass
+            return self.choose(f"{x!r} in {_short(container)}")
+        if isinstance(x, Obj) and isinstance(container, (list, tuple)):
+            return any(y is x for y in container)
+        return bool(self.native(_operator.contains, container, x))
+
+    def ev_IfExp(self, n, fr):
+        return self.ev(n.body, fr) if self.truth(self.ev(n.test, fr)) else self.ev(n.orelse, fr)
+
+    def ev_List(self, n, fr):
+        return list(self.elts(n.elts, fr))
+
+    def ev_Tuple(self, n, fr):
+        return tuple(self.elts(n.elts, fr))
+
+    def ev_Set(self, n, fr):
+        return self.native(set, self.elts(n.elts, fr))
+
+    def elts(self, es, fr):
+        out = []
+        for e in es:
+            if isinstance(e, ast.Starred):
+                out.extend(self.iterate(self.ev(e.value, fr)))
+            else:
+                out.append(self.ev(e, fr))
+        return out
+
+    def ev_Dict(self, n, fr):
+        d = {}
+        for k, v in zip(n.keys, n.values):
+            if k is None:
+                self.native(d.update, self.ev(v, fr))
+            else:
+                self.native(d.__setitem__, self.ev(k, fr), self.ev(v, fr))
+        return d
+
+    def ev_JoinedStr(self, n, fr):
+        out = []
+        for v in n.values:
+            if isinstance(v, ast.Constant):
+                out.append(str(v.value))
+            else:
+                out.append(self.ev_FormattedValue(v, fr))
+        return "".join(out)
+
+    def ev_FormattedValue(self, n, fr):
+        x = self.ev(n.value, fr)
+        conv = {-1: None, 115: "s", 114: "r", 97: "a"}[n.conversion]
+        spec = self.ev(n.format_spec, fr) if n.format_spec is not None else ""
+        return self.fmt(x, conv, spec)
+
+    def ev_Lambda(self, n, fr):
+        return Func(self, n, fr.module, fr)
+
+    def ev_NamedExpr(self, n, fr):
+        v = self.ev(n.value, fr)
+        self.assign(n.target, v, fr)
+        return v
+
+    def ev_Starred(self, n, fr):
+        raise Unsupported("starred expression")
+
+    def comp(self, gens, fr, emit):
+        def rec(i, f):
+            if i == len(gens):
+                yield emit(f)
+                return
+            g = gens[i]
+            for x in self.iterate(self.ev(g.iter, f)):
+                self.tick()
+                self.assign(g.target, x, f)
+                if all(self.truth(self.ev(c, f)) for c in g.ifs):
+                    yield from rec(i + 1, f)
+        return rec(0, Frame(fr.module, parent=fr, func=fr.func))
+
+    def ev_ListComp(self, n, fr):
+        return list(self.comp(n.generators, fr, lambda f: self.ev(n.elt, f)))
+
+    def ev_SetComp(self, n, fr):
+        return self.native(set, list(self.comp(n.generators, fr, lambda f: self.ev(n.elt, f))))
+
+    def ev_GeneratorExp(self, n, fr):
+        return self.comp(n.generators, fr, lambda f: self.ev(n.elt, f))
+
+    def ev_DictComp(self, n, fr):
+        d = {}
+        for k, v in self.comp(n.generators, fr, lambda f: (self.ev(n.key, f), self.ev(n.value, f))):
+            self.native(d.__setitem__, k, v)
+        return d
+
+    def ev_Call(self, n, fr):
+        if isinstance(n.func, ast.Name) and n.func.id == "super" and not n.args:
+            f = fr
+            while f is not None and (f.func is None or f.func.cls is None):
+                f = f.parent
+            if f is None:
+                raise Unsupported("super() outside a method")
+            first = (list(f.func.node.args.posonlyargs) + list(f.func.node.args.args))[0].arg
+            return SuperProxy(f.vars[first], f.func.cls)
+        f = self.ev(n.func, fr)
+        args = self.elts(n.args, fr)
+        kwargs = {}
+        for k in n.keywords:
+            if k.arg is None:
+                d = self.ev(k.value, fr)
+                if not isinstance(d, dict):
+                    raise Unsupported("** of a non-dict")
+                kwargs.update(d)
+            else:
+                kwargs[k.arg] = self.ev(k.value, fr)
+        if not self.in_definition:
+            self.before_call(n, f, args, kwargs)
+        return self.call(f, args, kwargs, node=n)
+
+
+def _load(t):
+    t2 = _copy.copy(t)
+    t2.ctx = ast.Load()
+    return t2
+
+
+def _short(v):
+    s = repr(v)
+    return s if len(s) < 60 else s[:57] + "..."
+
+
+def interp_pm(pm):
+    """program model the interpretation rules run on: the default (normalised) model, the same one every other property uses.
+    VERIF_INTERP_RAW=1 selects the tree exactly as written (no normalisation) as a cross-check: the interpreter follows helper
+    calls, constants and closures by itself and does not need normalisation."""
+    import os
+    if os.environ.get("VERIF_INTERP_RAW") != "1":
+        return pm
+    cached = getattr(pm, "_raw_pm", None)
+    if cached is not None:
+        return cached
+    from ..pm import PM
+    old = {k: os.environ.get(k) for k in ("VERIF_NO_NORMALISE", "VERIF_NO_ALPHA")}
+    os.environ["VERIF_NO_NORMALISE"] = os.environ["VERIF_NO_ALPHA"] = "1"
+    try:
+        raw = PM(pm.root)
+    finally:
+        for k, v in old.items():
+            if v is None:
+                os.environ.pop(k, None)
+            else:
+                os.environ[k] = v
+    pm._raw_pm = raw
+    return raw
+
+
+
+
+METHOD = ("abstract evaluation of the function's syntax tree by a purpose-built interpreter (sa/rules/c17.py): nothing of the analysed "
+          "repository is imported, exec'd or eval'd by Python; the outside world (files, paths, temporary directories, converter, font "
+          "loader, pydantic) is replaced by in-memory models; values from unmodelled externals are opaque unknowns, a condition on an "
+          "unknown forks the run and ALL valuations of the unknowns consulted are enumerated (more than the stated limit -> analysis gap); "
+          "data is concrete model data (sample strings, model file contents); a construct outside the interpreted subset is an analysis "
+          "gap (exit 2), never a violation")
+
+
+def cover(ctx, **kv):
+    """record what the interpretation covered in the evidence file (coverage.interpretation)"""
+    import os
+    d = ctx.extra.setdefault("interpretation", {"engine": "syntax-tree interpreter over model values (sa/rules/c17.py)",
+                                                "program_model": "as written (VERIF_INTERP_RAW=1)" if os.environ.get("VERIF_INTERP_RAW") == "1" else "normalised (default PM)",
+                                                "repository_code_imported_or_executed": False, "file_system": "in-memory model only"})
+    for k, v in kv.items():
+        if isinstance(v, int) and not isinstance(v, bool) and isinstance(d.get(k, 0), int):
+            d[k] = d.get(k, 0) + v
+        else:
+            d[k] = v
+
+
+def run_valuations(make, limit=48):
+    """make() -> (interp, thunk, world): a fresh model world per run; the thunk is run under every valuation of the unknown
+    conditions it consults -> [(valuation, outcome, world)]"""
+    out, pending, n = [], [dict()], 0
+    while pending:
+        v = pending.pop()
+        n += 1
+        if n > limit:
+            raise Unsupported(f"more than {limit} combinations of unknown conditions")
+        it, thunk, world = make()
+        it.valuation = v
+        try:
+            out.append((v, it.outcome(thunk), world))
+        except NeedChoice as e:
+            pending.extend({**v, e.key: x} for x in e.domain)
+    return out
+# ================================================================================================
+# File-system model used with the interpreter (assemble_rtf, the export writers): an in-memory tree with
+# an event log, model paths, file objects, temporary directories, shutil/os functions, ExitStack.
+# ================================================================================================
+import posixpath as _pp
+
+
+class _Model:
+    """model objects fail closed: an attribute the model does not provide is an analysis gap"""
+
+    def __getattr__(self, name):
+        if name.startswith("__") and name.endswith("__"):
+            raise AttributeError(name)
+        raise Unsupported(f"the {type(self).__name__} model has no attribute '{name}'")
+
+
+class FS:
+    def __init__(self, it, files=None, dirs=("/", "/tmp", "/work", "/home/user")):
+        self.it = it
+        self.files = dict(files or {})
+        self.dirs = set(dirs)
+        self.events = []
+        self.ntemp = 0
+        self.temp_created = []
+        self.cwd = "/work"
+        self.Path = type("Path", (MPath,), {"fs": self})
+        for p in list(self.files):
+            self._mkparents(p)
+
+    # ---- helpers
+    def norm(self, p):
+        if isinstance(p, MPath):
+            p = p.s
+        if isinstance(p, (Unknown, ExtRef)):
+            raise Unsupported(f"file-system operation on an unknown path {p!r}")
+        if isinstance(p, bytes):
+            p = p.decode()
+        if not isinstance(p, str):
+            self.it.throw("TypeError", f"expected str, bytes or os.PathLike object, not {type(p).__name__}")
+        if p.startswith("~"):
+            pass
+        return _pp.normpath(_pp.join(self.cwd, p))
+
+    def _mkparents(self, p):
+        d = _pp.dirname(p)
+        while d and d not in self.dirs:
+            self.dirs.add(d)
+            d = _pp.dirname(d)
+
+    def log(self, *e):
+        self.events.append(e)
+
+    def exists(self, p):
+        p = self.norm(p)
+        return p in self.files or p in self.dirs
+
+    def isfile(self, p):
+        return self.norm(p) in self.files
+
+    def isdir(self, p):
+        return self.norm(p) in self.dirs
+
+    def snapshot(self):
+        return dict(self.files), set(self.dirs)
+
+    def tree(self, d):
+        d = self.norm(d)
+        pre = d.rstrip("/") + "/"
+        return [f for f in self.files if f.startswith(pre)], [x for x in self.dirs if x.startswith(pre)]
+
+    # ---- primitive operations
+    def open(self, file, mode="r", *a, **k):
+        if a:
+            k.setdefault("buffering", a[0])
+        return FileObj(self, self.norm(file), mode)
+
+    def write_file(self, p, data, how="write"):
+        p = self.norm(p)
+        if p in self.dirs:
+            self.it.throw("IsADirectoryError", p)
+        if _pp.dirname(p) not in self.dirs:
+            self.it.throw("FileNotFoundError", f"No such file or directory: '{p}'")
+        self.log(how, p)
+        self.files[p] = data
+
+    def remove(self, p, *a, **k):
+        p = self.norm(p)
+        if p not in self.files:
+            self.it.throw("FileNotFoundError" if p not in self.dirs else "IsADirectoryError", p)
+        self.log("delete", p)
+        del self.files[p]
+
+    def mkdir(self, p, mode=0o777, parents=False, exist_ok=False):
+        p = self.norm(p)
+        if p in self.dirs or p in self.files:
+            if exist_ok and p in self.dirs:
+                return
+            self.it.throw("FileExistsError", p)
+        if _pp.dirname(p) not in self.dirs:
+            if not parents:
+                self.it.throw("FileNotFoundError", p)
+            self.mkdir(_pp.dirname(p), parents=True, exist_ok=True)
+        self.log("mkdir", p)
+        self.dirs.add(p)
+
+    def makedirs(self, p, mode=0o777, exist_ok=False):
+        self.mkdir(p, parents=True, exist_ok=exist_ok)
+
+    def rmdir(self, p):
+        p = self.norm(p)
+        if p not in self.dirs:
+            self.it.throw("FileNotFoundError", p)
+        fs, ds = self.tree(p)
+        if fs or ds:
+            self.it.throw("OSError", "Directory not empty")
+        self.log("rmdir", p)
+        self.dirs.discard(p)
+
+    def rmtree(self, p, ignore_errors=False, *a, **k):
+        p = self.norm(p)
+        if p not in self.dirs:
+            if ignore_errors:
+                return
+            self.it.throw("FileNotFoundError", p)
+        fs, ds = self.tree(p)
+        for f in fs:
+            del self.files[f]
+        for d in ds:
+            self.dirs.discard(d)
+        self.dirs.discard(p)
+        self.log("rmtree", p)
+
+    def move(self, src, dst, *a, **k):
+        s, d = self.norm(src), self.norm(dst)
+        if s not in self.files and s not in self.dirs:
+            self.it.throw("FileNotFoundError", f"No such file or directory: '{s}'")
+        if d in self.dirs:
+            d = _pp.join(d, _pp.basename(s))
+            if d in self.files or d in self.dirs:
+                self.it.throw("OSError", f"Destination path '{d}' already exists")
+        if _pp.dirname(d) not in self.dirs:
+            self.it.throw("FileNotFoundError", f"No such file or directory: '{d}'")
+        self.log("move", s, d)
+        if s in self.files:
+            self.files[d] = self.files.pop(s)
+        else:
+            fs, ds = self.tree(s)
+            for f in fs:
+                self.files[d + f[len(s):]] = self.files.pop(f)
+            for x in ds:
+                self.dirs.discard(x)
+                self.dirs.add(d + x[len(s):])
+            self.dirs.discard(s)
+            self.dirs.add(d)
+        return dst if not isinstance(dst, MPath) else d
+
+    def rename(self, src, dst, *a, **k):
+        s, d = self.norm(src), self.norm(dst)
+        if s not in self.files and s not in self.dirs:
+            self.it.throw("FileNotFoundError", s)
+        if _pp.dirname(d) not in self.dirs:
+            self.it.throw("FileNotFoundError", d)
+        self.log("move", s, d)
+        if s in self.files:
+            self.files[d] = self.files.pop(s)
+        else:
+            self.move(s, d)
+
+    def copyfile(self, src, dst, *a, **k):
+        s, d = self.norm(src), self.norm(dst)
+        if s not in self.files:
+            self.it.throw("FileNotFoundError", s)
+        if d in self.dirs:
+            d = _pp.join(d, _pp.basename(s))
+        self.write_file(d, self.files[s], "copy")
+        return dst
+
+    def listdir(self, p="."):
+        p = self.norm(p)
+        if p not in self.dirs:
+            self.it.throw("FileNotFoundError", p)
+        pre = p.rstrip("/") + "/"
+        return sorted({x[len(pre):].split("/")[0] for x in list(self.files) + list(self.dirs) if x.startswith(pre)})
+
+    def getsize(self, p):
+        p = self.norm(p)
+        if p not in self.files:
+            self.it.throw("FileNotFoundError", p)
+        return len(self.files[p])
+
+    def mkdtemp(self, *a, **k):
+        self.ntemp += 1
+        d = f"/tmp/{k.get('prefix') or 'tmp'}{self.ntemp:04d}"
+        self.dirs.add(d)
+        self.temp_created.append(d)
+        self.log("mkdtemp", d)
+        return d
+
+    def fspath(self, p):
+        if isinstance(p, MPath):
+            return p.s
+        if isinstance(p, (str, bytes)):
+            return p
+        self.it.throw("TypeError", "expected str, bytes or os.PathLike object")
+
+    def externals(self):
+        """the external names this model provides"""
+        fs = self
+        ident = lambda p, *a, **k: p
+        ext = {
+            "builtins.open": fs.open, "io.open": fs.open, "codecs.open": fs.open, "pathlib.Path": fs.Path, "pathlib.PurePath": fs.Path, "pathlib.PosixPath": fs.Path,
+            "os.path.exists": fs.exists, "os.path.lexists": fs.exists, "os.path.isfile": fs.isfile, "os.path.isdir": fs.isdir,
+            "os.path.getsize": fs.getsize, "os.path.expanduser": ident, "os.path.abspath": fs.norm, "os.path.realpath": fs.norm,
+            "os.remove": fs.remove, "os.unlink": fs.remove, "os.rename": fs.rename, "os.replace": fs.rename, "os.mkdir": fs.mkdir,
+            "os.makedirs": fs.makedirs, "os.rmdir": fs.rmdir, "os.listdir": fs.listdir, "os.fspath": fs.fspath, "os.getcwd": lambda: fs.cwd,
+            "os.PathLike": fs.Path, "os.sep": "/", "os.linesep": "\n",
+            "shutil.move": fs.move, "shutil.copy": fs.copyfile, "shutil.copy2": fs.copyfile, "shutil.copyfile": fs.copyfile,
+            "shutil.rmtree": fs.rmtree,
+            "tempfile.TemporaryDirectory": lambda *a, **k: TempDir(fs, *a, **k), "tempfile.mkdtemp": fs.mkdtemp,
+            "tempfile.gettempdir": lambda: "/tmp",
+            "tempfile.NamedTemporaryFile": lambda *a, **k: NamedTemp(fs, *a, **k),
+            "tempfile.mkstemp": lambda *a, **k: NamedTemp(fs, *a, delete=False, **k).as_mkstemp(),
+            "contextlib.ExitStack": lambda: ExitStackModel(fs.it), "contextlib.nullcontext": lambda v=None: NullCM(v),
+            "contextlib.suppress": lambda *t: Suppress(fs.it, t), "contextlib.closing": lambda v: NullCM(v),
+        }
+        return ext
+
+
+class FileObj(_Model):
+    def __init__(self, fs, path, mode="r"):
+        self.fs, self.path, self.mode, self.closed = fs, path, str(mode), False
+        self.binary = "b" in self.mode
+        self.name = path
+        if not any(c in self.mode for c in "wax+"):
+            if path in fs.dirs:
+                fs.it.throw("IsADirectoryError", path)
+            if path not in fs.files:
+                fs.it.throw("FileNotFoundError", f"No such file or directory: '{path}'")
+            fs.log("read", path)
+            self.pos = 0
+        else:
+            if "x" in self.mode and path in fs.files:
+                fs.it.throw("FileExistsError", path)
+            if "w" in self.mode or "x" in self.mode:
+                fs.write_file(path, b"" if self.binary else "", "truncate" if path in fs.files else "create")
+            elif path not in fs.files:
+                if "r" in self.mode:
+                    fs.it.throw("FileNotFoundError", path)
+                fs.write_file(path, b"" if self.binary else "", "create")
+            self.pos = len(fs.files[path]) if "a" in self.mode else 0
+
+    def _check(self):
+        if self.closed:
+            self.fs.it.throw("ValueError", "I/O operation on closed file.")
+
+    def _data(self):
+        if self.path not in self.fs.files:
+            self.fs.it.throw("FileNotFoundError", self.path)
+        return self.fs.files[self.path]
+
+    def read(self, n=-1):
+        self._check()
+        d = self._data()
+        out = d[self.pos:] if n is None or n < 0 else d[self.pos:self.pos + n]
+        self.pos += len(out)
+        return out
+
+    def readlines(self, hint=-1):
+        return self.read().splitlines(keepends=True)
+
+    def readline(self, *a):
+        self._check()
+        rest = self._data()[self.pos:]
+        ls = rest.splitlines(keepends=True)
+        out = ls[0] if ls else rest[:0]
+        self.pos += len(out)
+        return out
+
+    def __iter__(self):
+        return iter(self.readlines())
+
+    def write(self, s):
+        self._check()
+        if not any(c in self.mode for c in "wax+"):
+            self.fs.it.throw("OSError", "not writable")
+        if isinstance(s, (Unknown, ExtRef)):
+            raise Unsupported("writing an unknown value to a file")
+        if not isinstance(s, bytes if self.binary else str):
+            self.fs.it.throw("TypeError", f"write() argument must be {'bytes' if self.binary else 'str'}, not {type(s).__name__}")
+        d = self._data()
+        self.fs.log("write", self.path)
+        self.fs.files[self.path] = d[:self.pos] + s + d[self.pos + len(s):]
+        self.pos += len(s)
+        return len(s)
+
+    def writelines(self, lines):
+        for ln in self.fs.it.iterate(lines):
+            self.write(ln)
+
+    def flush(self):
+        return None
+
+    def seek(self, pos, whence=0):
+        self.pos = pos if whence == 0 else (self.pos + pos if whence == 1 else len(self._data()) + pos)
+        return self.pos
+
+    def tell(self):
+        return self.pos
+
+    def truncate(self, size=None):
+        self.fs.files[self.path] = self._data()[:self.pos if size is None else size]
+
+    def close(self):
+        self.closed = True
+
+    def __enter__(self):
+        return self
+
+    def __exit__(self, *a):
+        self.closed = True
+        return False
+
+
+class MPath(_Model):
+    fs = None
+
+    def __init__(self, *parts):
+        ps = []
+        for p in parts:
+            if isinstance(p, MPath):
+                ps.append(p.s)
+            elif isinstance(p, str):
+                ps.append(p)
+            elif isinstance(p, (Unknown, ExtRef)):
+                raise Unsupported(f"path built from an unknown value {p!r}")
+            else:
+                self.fs.it.throw("TypeError", f"expected str, bytes or os.PathLike object, not {type(p).__name__}")
+        self.s = _pp.join(*ps) if ps else "."
+        if len(self.s) > 1:
+            self.s = self.s.rstrip("/") or "/"
+
+    def _new(self, s):
+        return type(self)(s)
+
+    def __str__(self):
+        return self.s
+
+    def __repr__(self):
+        return f"Path({self.s!r})"
+
+    def __fspath__(self):
+        return self.s
+
+    def __format__(self, spec):
+        return format(self.s, spec)
+
+    def __eq__(self, o):
+        return isinstance(o, MPath) and o.s == self.s
+
+    def __hash__(self):
+        return hash(("MPath", self.s))
+
+    def __lt__(self, o):
+        return self.s < o.s
+
+    def __truediv__(self, o):
+        return type(self)(self.s, o)
+
+    def __rtruediv__(self, o):
+        return type(self)(o, self.s)
+
+    def __deepcopy__(self, memo):
+        return self
+
+    @property
+    def parent(self):
+        return self._new(_pp.dirname(self.s) or ".")
+
+    @property
+    def parents(self):
+        out, p = [], self
+        while p.parent.s != p.s:
+            p = p.parent
+            out.append(p)
+        return tuple(out)
+
+    @property
+    def name(self):
+        return _pp.basename(self.s)
+
+    @property
+    def suffix(self):
+        n = self.name
+        i = n.rfind(".")
+        return n[i:] if 0 < i < len(n) - 1 else ""
+
+    @property
+    def suffixes(self):
+        n = self.name.lstrip(".")
+        return ["." + x for x in n.split(".")[1:]]
+
+    @property
+    def stem(self):
+        n = self.name
+        i = n.rfind(".")
+        return n[:i] if 0 < i < len(n) - 1 else n
+
+    @property
+    def parts(self):
+        return tuple((["/"] if self.s.startswith("/") else []) + [x for x in self.s.split("/") if x])
+
+    def with_name(self, name):
+        return self._new(_pp.join(_pp.dirname(self.s), name))
+
+    def with_suffix(self, suffix):
+        return self.with_name(self.stem + suffix)
+
+    def with_stem(self, stem):
+        return self.with_name(stem + self.suffix)
+
+    def joinpath(self, *o):
+        return type(self)(self.s, *o)
+
+    def expanduser(self):
+        return self
+
+    def resolve(self, strict=False):
+        return self._new(self.fs.norm(self.s))
+
+    def absolute(self):
+        return self._new(self.fs.norm(self.s))
+
+    def is_absolute(self):
+        return self.s.startswith("/")
+
+    def as_posix(self):
+        return self.s
+
+    def exists(self):
+        return self.fs.exists(self.s)
+
+    def is_file(self):
+        return self.fs.isfile(self.s)
+
+    def is_dir(self):
+        return self.fs.isdir(self.s)
+
+    def open(self, mode="r", *a, **k):
+        return self.fs.open(self.s, mode)
+
+    def read_text(self, *a, **k):
+        with self.fs.open(self.s, "r") as f:
+            return f.read()
+
+    def read_bytes(self):
+        with self.fs.open(self.s, "rb") as f:
+            return f.read()
+
+    def write_text(self, data, *a, **k):
+        if not isinstance(data, str):
+            if isinstance(data, (Unknown, ExtRef)):
+                raise Unsupported("writing an unknown value to a file")
+            self.fs.it.throw("TypeError", f"data must be str, not {type(data).__name__}")
+        with self.fs.open(self.s, "w") as f:
+            return f.write(data)
+
+    def write_bytes(self, data):
+        with self.fs.open(self.s, "wb") as f:
+            return f.write(data)
+
+    def touch(self, mode=0o666, exist_ok=True):
+        if not self.exists():
+            self.fs.write_file(self.s, "", "create")
+        elif not exist_ok:
+            self.fs.it.throw("FileExistsError", self.s)
+
+    def mkdir(self, mode=0o777, parents=False, exist_ok=False):
+        self.fs.mkdir(self.s, mode, parents, exist_ok)
+
+    def unlink(self, missing_ok=False):
+        if missing_ok and not self.fs.isfile(self.s):
+            return
+        self.fs.remove(self.s)
+
+    def rmdir(self):
+        self.fs.rmdir(self.s)
+
+    def rename(self, target):
+        self.fs.rename(self.s, target)
+        return self._new(self.fs.fspath(target))
+
+    replace = rename
+
+    def iterdir(self):
+        return iter([self / n for n in self.fs.listdir(self.s)])
+
+    def stat(self):
+        raise Unsupported("Path.stat is not modelled")
+
+
+class TempDir(_Model):
+    def __init__(self, fs, *a, **k):
+        self.fs = fs
+        self.name = fs.mkdtemp(prefix=k.get("prefix"))
+        self.managed = True
+
+    def cleanup(self):
+        if self.name in self.fs.dirs:
+            self.fs.rmtree(self.name)
+
+    def __enter__(self):
+        return self.name
+
+    def __exit__(self, *a):
+        self.cleanup()
+        return False
+
+
+class NamedTemp(FileObj):
+    def __init__(self, fs, mode="w+b", *a, delete=True, **k):
+        fs.ntemp += 1
+        self.delete = delete
+        path = f"/tmp/{k.get('prefix') or 'tmp'}{fs.ntemp:04d}{k.get('suffix') or ''}"
+        if k.get("dir") is not None:
+            path = _pp.join(fs.norm(k["dir"]), _pp.basename(path))
+        fs.temp_created.append(path)
+        FileObj.__init__(self, fs, path, mode if isinstance(mode, str) else "w+b")
+
+    def as_mkstemp(self):
+        return (Unknown("fd"), self.path)
+
+    def close(self):
+        self.closed = True
+        if self.delete and self.path in self.fs.files:
+            self.fs.remove(self.path)
+
+    def __exit__(self, *a):
+        self.close()
+        return False
+
+
+class NullCM(_Model):
+    def __init__(self, v=None):
+        self.v = v
+
+    def __enter__(self):
+        return self.v
+
+    def __exit__(self, *a):
+        return False
+
+
+class Suppress(_Model):
+    def __init__(self, it, types):
+        self.it, self.types = it, types
+
+    def __enter__(self):
+        return None
+
+    def __exit__(self, t, v, tb):
+        return v is not None and any(getattr(x, "name", None) in self.it.exc_names(v) for x in self.types)
+
+
+class ExitStackModel(_Model):
+    def __init__(self, it):
+        self.it, self.stack = it, []
+
+    def enter_context(self, cm):
+        v = self.it.cm_enter(cm)
+        self.stack.append(("cm", cm))
+        return v
+
+    def callback(self, f, *a, **k):
+        self.stack.append(("cb", (f, a, k)))
+        return f
+
+    def push(self, ex):
+        self.stack.append(("exit", ex))
+        return ex
+
+    def pop_all(self):
+        n = ExitStackModel(self.it)
+        n.stack, self.stack = self.stack, []
+        return n
+
+    def close(self):
+        self.__exit__(None, None, None)
+
+    def __enter__(self):
+        return self
+
+    def __exit__(self, t, v, tb):
+        exc, swallowed = v, False
+        while self.stack:
+            kind, x = self.stack.pop()
+            try:
+                if kind == "cm":
+                    if self.it.cm_exit(x, exc) and exc is not None:
+                        exc, swallowed = None, True
+                elif kind == "cb":
+                    self.it.call(x[0], list(x[1]), dict(x[2]))
+                else:
+                    a = [None, None, None] if exc is None else [exc.cls, exc, None]
+                    if self.it.truth(self.it.call(x, a, {})) and exc is not None:
+                        exc, swallowed = None, True
+            except PyExc as e:
+                exc, swallowed = e.val, False
+        if exc is not None and exc is not v:
+            raise PyExc(exc)
+        return swallowed and v is not None
+# ================================================================================================
+# C17 rules
+# ================================================================================================
+_SEP_RE = _re.compile(r"\\page(?![a-zA-Z])[^\n]*\n")
+_ARTEFACT_EXC = {"TypeError", "AttributeError", "NameError", "NotImplementedError", "RecursionError"}
+
+
+def is_artefact(exc) -> bool:
+    """an exception that was produced by the interpreter / a model (not by a `raise` statement) and whose type suggests that a
+    model value was used in a way the model does not support: not evidence about the analysed code"""
+    return isinstance(exc, Obj) and exc.attrs.get("__origin__") == "interp" and exc.cls is not None and exc.cls.mro_names()[0] in _ARTEFACT_EXC
+
+
+def writer_docs(ctx: Ctx):
+    """R17.1, writer side: from the abstract document shape of each encode path take the literal preamble, locate the line
+    on which the font-table group closes and build a model document `preamble + tagged body lines + '}'`.
+    -> [(label, lines, index of the first body line)]"""
     pm = ctx.pm
-    fi = pm.func("assemble_rtf.<locals>.find_start_index")
-    marker = None
-    for n in walk_no_nested(fi.node):
-        if isinstance(n, ast.Compare) and len(n.ops) == 1 and isinstance(n.ops[0], ast.In) and isinstance(n.left, ast.Constant):
-            marker = n.left.value
-    add = None
-    for r in walk_no_nested(fi.node):
-        if isinstance(r, ast.Return) and r.value is not None:
-            lf = linform(r.value)
-            if "last_idx" in lf:
-                add = lf.get("", 0)
-    # last_idx must be the LAST line containing the marker (assigned in a loop without break)
-    loops = [n for n in walk_no_nested(fi.node) if isinstance(n, ast.For)]
-    last_ok = bool(loops) and not any(isinstance(b, ast.Break) for lp in loops for b in ast.walk(lp)) and \
-        any(isinstance(a, ast.Assign) and unparse(a.targets[0]) == "last_idx" and unparse(a.value) == "i" for lp in loops for a in ast.walk(lp))
-    return fi, marker, add, last_ok
-
-
-def r17_1(ctx: Ctx) -> None:
-    pm = ctx.pm
-    rfi, marker, add, last_ok = reader_constants(ctx)
-    ctx.instance("R17.1", rfi.where(), f"reader: marker {marker!r}, start = last marker line + {add}, uses the last occurrence: {last_ok}")
-    if marker is None or add is None:
-        ctx.violation("R17.1", rfi.short, "reader constants", rfi.where(), "find_start_index no longer locates the preamble by the last line containing a marker plus a constant")
-        return
-    if not last_ok:
-        ctx.violation("R17.1", rfi.short, "not last occurrence", rfi.where(), "find_start_index no longer takes the LAST line containing the marker")
     it = make_interp(pm)
+    docs = []
     for path in PATHS:
         fi = pm.func(path)
         _, sh = doc_shape(it, pm, path)
-        for a in S.alternatives(sh):
+        for na, a in enumerate(S.alternatives(sh)):
             items = S.items_of(a)
+            if a == S.EPS:
+                continue
             if not items or not isinstance(items[0], S.Lit):
-                if a == S.EPS:
-                    continue
-                ctx.violation("R17.1", path, "no literal preamble", fi.where(), f"{path}: document does not start with a literal preamble")
+                ctx.gap("R17.1", f"{path}: the document does not start with a literal preamble (shape {S.show(a, 80)})")
                 continue
             pre = items[0].s
-            lines = pre.split("\n")
-            idx = [i for i, ln in enumerate(lines) if marker in ln]
-            if not idx:
-                ctx.violation("R17.1", path, f"marker {marker} absent", fi.where(), f"{path}: preamble contains no line with {marker!r}; assemble_rtf keeps the whole file of later inputs")
-                continue
-            last = idx[-1]
-            # position where the font-table group closes
             start = pre.find("{\\fonttbl")
             depth, pos_close = 0, None
-            for k in range(start, len(pre)):
+            for k in range(start, len(pre)) if start >= 0 else ():
                 if pre[k] == "{":
                     depth += 1
                 elif pre[k] == "}":
@@ -79,31 +2371,24 @@ def r17_1(ctx: Ctx) -> None:
                         pos_close = k
                         break
             if pos_close is None:
-                ctx.violation("R17.1", path, "font table not closed in preamble", fi.where(), f"{path}: font table group is not closed inside the literal preamble")
+                ctx.gap("R17.1", f"{path}: the font table is not a literal part of the preamble (it ends at {pre[-30:]!r}); "
+                                 "the line layout written by the encoder cannot be determined")
                 continue
             close_line = pre.count("\n", 0, pos_close)
             rest_lit = pre[pos_close + 1:]
-            # what follows the closing brace on the same line
             if "\n" in rest_lit:
                 same_line_tail = rest_lit.split("\n")[0]
                 tail_desc = repr(same_line_tail)
                 clean = same_line_tail == ""
             else:
-                nxt = S.seq(*items[1:])
-                heads = S.heads(nxt, 1)
+                heads = S.heads(S.seq(*items[1:]), 1)
                 clean = rest_lit == "" and heads <= {"\n"}
                 tail_desc = repr(rest_lit) + " then " + str(sorted(heads))
-            expect = close_line - last + 1
-            ctx.instance("R17.1", fi.where(), f"{path}: last {marker} line {last}, font table closes on line {close_line}; writer needs +{expect}, reader adds +{add}; closing line tail {tail_desc}")
-            if expect != add:
-                ctx.violation("R17.1", path, f"offset writer {expect} reader {add}", fi.where(),
-                              f"{path}: the body starts {expect} lines after the last {marker!r} line but assemble_rtf skips {add}: "
-                              "part of the font table leaks into, or body lines are cut from, later inputs")
+            ctx.instance("R17.1", fi.where(), f"{path}: font table closes on line {close_line} of the preamble, body starts on line {close_line + 1}; closing line tail {tail_desc}")
             if not clean:
                 ctx.violation("R17.1", path, "font-table closing line carries content", fi.where(),
                               f"{path}: the line that closes the font table can continue with other content ({tail_desc}); "
-                              "assemble_rtf drops that whole line for every input but the first")
-            # document ends with a line consisting of '}' only
+                              "a line-based reader drops or keeps that whole line for every input but the first")
             tails = S.tails(a, 3)
             bad = [t for t in tails if not t.endswith("\n}")]
             ctx.instance("R17.1", fi.where(), f"{path}: document tails {sorted(tails)}")
@@ -111,142 +2396,277 @@ def r17_1(ctx: Ctx) -> None:
                 ctx.violation("R17.1", path, "last line " + repr(sorted(bad)[0]), fi.where(),
                               f"{path}: the document does not end with a line consisting of '}}' only ({sorted(bad)[0]!r}); dropping the last line of "
                               "non-final inputs removes content or leaves the group open")
-    ctx.floor("R17.1", 6)
+            head = pre[:pos_close + 1].split("\n")
+            k = len(docs)
+            lines = [ln + "\n" for ln in head] + [f"\\pard body of document {k} line {j}\\par\n" for j in range(2 + k)] + ["\n", "}"]
+            docs.append((f"{path.split('.')[-1]}#{na}", lines, close_line + 1, fi))
+    return docs
 
 
-def r17_2(ctx: Ctx) -> None:
+def synthetic_docs():
+    """fallback when the writer's layout could not be determined: today's layout (font entries one per line, each with
+    \\fcharset, closing brace on its own line), with different preamble lengths"""
+    out = []
+    for k, (nfont, joined) in enumerate(((10, False), (10, True), (3, False))):
+        fonts = [("{\\fonttbl" if i == 0 else "") + f"{{\\f{i}\\froman\\fcharset1\\fprq2 Font{i};}}\n" for i in range(nfont)]
+        head = ["{\\rtf1\\ansi\n"] + (["\\deff0\\deflang1033" + fonts[0]] + fonts[1:] if joined else ["\\deff0\\deflang1033\n"] + fonts) + ["}\n"]
+        lines = head + [f"\\pard body of document s{k} line {j}\\par\n" for j in range(2 + k)] + ["\n", "}"]
+        out.append((f"synthetic#{k}", lines, len(head), None))
+    return out
+
+
+class AssembleRun:
+    def __init__(self, pm, files, existing_out=None):
+        self.it = Interp(pm)
+        fsfiles = dict(files)
+        if existing_out is not None:
+            fsfiles["/work/out/combined.rtf"] = existing_out
+        self.fs = FS(self.it, fsfiles, dirs=("/", "/tmp", "/work", "/work/out", "/work/in"))
+        self.it.externals.update(self.fs.externals())
+        self.before = self.fs.snapshot()
+
+    def run(self, fi, inputs):
+        f = self.it.func_val(fi)
+        return self.it.explore(lambda: self.it.call(f, [list(inputs), "/work/out/combined.rtf"], {}))
+
+
+def _retag(lines, tag):
+    return [ln.replace("body of document", f"body of document {tag}/") for ln in lines]
+
+
+def _first_diff(got, exp):
+    for i, (a, b) in enumerate(zip(got, exp)):
+        if a != b:
+            return f"line {i}: got {a!r}, expected {b!r}"
+    return f"got {len(got)} lines, expected {len(exp)}" if len(got) != len(exp) else "equal"
+
+
+def r17_2(ctx: Ctx, docs) -> None:
+    """assemble_rtf is interpreted over model files (an in-memory file system): what it reads, writes and raises is observed"""
+    pm = interp_pm(ctx.pm)
+    fi = pm.func("assemble_rtf")
+    OUT = "/work/out/combined.rtf"
+    stats = {"scenarios": 0, "runs": 0, "forks": 0}
+
+    def scenario(label, seq, missing=(), existing_out=None):
+        """-> list of (outcome, fs, inputs) per valuation of unknown conditions"""
+        files, inputs, parts = {}, [], []
+        for n, d in enumerate(seq):
+            p = f"/work/in/part{n}.rtf"
+            lines = _retag(docs[d][1], f"input{n}")
+            inputs.append(p)
+            parts.append(lines)
+            if n not in missing:
+                files[p] = "".join(lines)
+        res = []
+        # each valuation needs a fresh file system: re-run per valuation
+        pending = [dict()]
+        while pending:
+            v = pending.pop()
+            r = AssembleRun(pm, files, existing_out)
+            r.it.valuation = v
+            try:
+                out = r.it.outcome(lambda: r.it.call(r.it.func_val(fi), [list(inputs), OUT], {}))
+            except NeedChoice as e:
+                if len(v) > 6:
+                    raise Unsupported("too many unknown conditions in assemble_rtf")
+                pending.extend({**v, e.key: x} for x in e.domain)
+                continue
+            res.append((out, r, parts))
+        stats["scenarios"] += 1
+        stats["runs"] += len(res)
+        stats["forks"] += len(res) - 1
+        return res
+
+    def unexpected(out, label):
+        """an exception on valid inputs"""
+        names = out[1].cls.mro_names() if out[0] == "raise" else []
+        if out[0] != "raise":
+            return False
+        if is_artefact(out[1]):
+            ctx.gap("R17.2", f"{label}: interpretation ended with {out[1]!r} (possibly an artefact of the file model)")
+        else:
+            ctx.violation("R17.2", fi.short, f"{label.split(' [')[0]} raises {names[0] if names else '?'}", fi.where(),
+                          f"assemble_rtf raises {out[1]!r} for {label} (all inputs exist and were written by rtflite)")
+        return True
+
+    # ---- empty list: nothing is read or written
+    for out, r, _ in scenario("empty list", []):
+        touched = [e for e in r.fs.events if e[0] != "read"]
+        ctx.instance("R17.2", fi.where(), f"assemble_rtf([]) -> {out[0]}; file-system events {r.fs.events}")
+        if out[0] == "raise":
+            unexpected(out, "an empty input list")
+        elif touched:
+            ctx.violation("R17.2", fi.short, "empty list writes", fi.where(), f"an empty input list must write nothing, but assemble_rtf performs {touched[:3]}")
+    # ---- single input reproduced unchanged
+    for d, (label, lines, start, wfi) in enumerate(docs):
+        for out, r, parts in scenario(f"a single input [{label}]", [d]):
+            if unexpected(out, f"a single input [{label}]"):
+                continue
+            got = r.fs.files.get(OUT)
+            ok = got == "".join(parts[0])
+            ctx.instance("R17.2", fi.where(), f"single input [{label}] reproduced unchanged: {ok}")
+            if got is None:
+                ctx.violation("R17.2", fi.short, "no output write", fi.where(), "assemble_rtf does not write the output file for a single input")
+            elif not ok:
+                ctx.violation("R17.2", fi.short, "single input changed", fi.where(),
+                              f"a single input is not reproduced unchanged ({_first_diff(got.splitlines(True), parts[0])})")
+    # ---- two and three inputs: preamble of the first, body of the others from their own first body line, page line between
+    combos = [(a, b) for a in range(len(docs)) for b in range(len(docs))]
+    n = len(docs)
+    combos += [tuple((s + k) % n for k in range(3)) for s in range(n)] + [tuple(reversed(range(n)))[:3] + ((0,) if n < 3 else ())]
+    seen = set()
+    for seq in combos:
+        if seq in seen or len(seq) < 2:
+            continue
+        seen.add(seq)
+        label = "inputs [" + ", ".join(docs[d][0] for d in seq) + "]"
+        for out, r, parts in scenario(label, seq):
+            if unexpected(out, label):
+                continue
+            got = r.fs.files.get(OUT)
+            if got is None:
+                ctx.violation("R17.2", fi.short, "no output write", fi.where(), f"assemble_rtf does not write the output file for {label}")
+                continue
+            verdict = _check_assembled(ctx, fi, docs, seq, parts, got.splitlines(True), label)
+            ctx.instance("R17.2", fi.where(), f"{label}: {verdict}")
+    # ---- a missing input: FileNotFoundError, nothing written
+    for miss in range(3):
+        seq = [k % len(docs) for k in range(3)]
+        for existing in ("OLD CONTENT\n", None):
+            label = f"input {miss + 1} of 3 missing, output {'exists' if existing else 'absent'}"
+            for out, r, parts in scenario(label, seq, missing={miss}, existing_out=existing):
+                names = out[1].cls.mro_names() if out[0] == "raise" else []
+                after = r.fs.files.get(OUT)
+                others = sorted(set(r.fs.files) - set(r.before[0]) - {OUT})
+                ctx.instance("R17.2", fi.where(), f"{label}: {out[0]} {names[:1]}; output afterwards {'unchanged' if after == existing else 'CHANGED'}")
+                if after != existing or others:
+                    what = "created" if existing is None else "modified"
+                    ctx.violation("R17.2", fi.short, f"output {what} although an input is missing", fi.where(),
+                                  f"{label}: the output file is {what} ({[e for e in r.fs.events if e[0] != 'read'][:3]}) although assemble_rtf "
+                                  f"{'raises ' + names[0] if names else 'returns'}; a missing input must raise FileNotFoundError before anything is written")
+                if "FileNotFoundError" not in names:
+                    if out[0] == "raise" and is_artefact(out[1]):
+                        ctx.gap("R17.2", f"{label}: interpretation ended with {out[1]!r}")
+                    else:
+                        ctx.violation("R17.2", fi.short, "missing input: " + (names[0] if names else "no exception"), fi.where(),
+                                      f"{label}: assemble_rtf {'raises ' + names[0] if names else 'returns normally'} instead of FileNotFoundError")
+    ctx.floor("R17.2", 6)
+    # ---- R17.3 (observed): a second call in the same process after an input was regenerated assembles the new content
+    seq = [k % len(docs) for k in range(2)]
+    files, inputs, parts = {}, [], []
+    for n, d in enumerate(seq):
+        p = f"/work/in/part{n}.rtf"
+        inputs.append(p)
+        parts.append(_retag(docs[d][1], f"input{n}"))
+        files[p] = "".join(parts[-1])
+
+    def make():
+        r = AssembleRun(pm, files)
+        f = r.it.func_val(fi)
+
+        def thunk():
+            r.it.call(f, [list(inputs), OUT], {})
+            first = r.fs.files.get(OUT)
+            r.fs.files[inputs[1]] = "".join(_retag(parts[1], "REGENERATED"))
+            r.it.call(f, [list(inputs), OUT], {})
+            return first, r.fs.files.get(OUT)
+        return r.it, thunk, r
+    rv = run_valuations(make)
+    stats["scenarios"] += 1
+    stats["runs"] += len(rv)
+    stats["forks"] += len(rv) - 1
+    cover(ctx, layouts=[d[0] for d in docs], input_sequences=sorted({len(q) for q in seen} | {0, 1, 3}), ordered_pairs_and_triples=len(seen),
+          scenarios=stats["scenarios"], interpreted_runs=stats["runs"], forks_on_unknown_conditions=stats["forks"],
+          fork_enumeration="all valuations of the unknown conditions consulted (at most 2^7 per scenario, else analysis gap)")
+    for v, out, r in rv:
+        if out[0] == "raise":
+            continue                                  # reported by the scenarios above
+        first, second = out[1]
+        fresh = second is not None and "REGENERATED" in second
+        ctx.instance("R17.3", fi.where(), f"second call after input 2 was rewritten assembles the new content: {fresh}")
+        if not fresh and first is not None:
+            ctx.violation("R17.3", fi.short, "stale input content", fi.where(),
+                          "after an input file was rewritten a second assemble_rtf call in the same process still assembles its old content "
+                          "(inputs are not read when the function is called)")
+
+
+def _check_assembled(ctx, fi, docs, seq, parts, got, label) -> str:
+    """compare the assembled lines with: first input without its closing line, then for every later input a page line
+    followed by its lines from its first body line (without the closing line unless it is the last input)"""
+    pos = 0
+    for n, d in enumerate(seq):
+        lines, start = parts[n], docs[d][2]
+        last = n == len(seq) - 1
+        if n > 0:
+            if pos >= len(got) or not _SEP_RE.fullmatch(got[pos]):
+                ctx.violation("R17.2", fi.short, "no page line before a later input", fi.where(),
+                              f"{label}: input {n + 1} is not preceded by a \\page line (found {got[pos] if pos < len(got) else 'end of file'!r}): "
+                              "inputs do not start on a new page / lines are lost or duplicated")
+                return "page line missing"
+            pos += 1
+        want = lines[(start if n > 0 else 0):(None if last else -1)]
+        have = got[pos:pos + len(want)]
+        if have != want:
+            # explain: same input kept from another line?
+            if n > 0:
+                end = len(got) if last else None
+                for s2 in range(0, len(lines)):
+                    alt = lines[s2:(None if last else -1)]
+                    if got[pos:pos + len(alt)] == alt and (not last or pos + len(alt) == len(got)) and \
+                            (last or (pos + len(alt) < len(got) and _SEP_RE.fullmatch(got[pos + len(alt)]))):
+                        w = docs[d][3]
+                        ctx.violation("R17.1", docs[d][0].split("#")[0], f"body starts on line {start}, reader keeps from line {s2}", (w or fi).where(),
+                                      f"{label}: a document written by {docs[d][0]} has its first body line at index {start} (the line after the one closing the font "
+                                      f"table) but assemble_rtf keeps it from line {s2} when it is not the first input: "
+                                      + ("part of the preamble leaks into the assembled file" if s2 < start else "body lines are cut"))
+                        return f"input {n + 1} kept from line {s2}, expected {start}"
+            ctx.violation("R17.2", fi.short, f"part {n + 1} of {len(seq)} differs", fi.where(),
+                          f"{label}: the assembled file differs from the concatenation in input order at part {n + 1} ({_first_diff(have, want)})")
+            return f"part {n + 1} differs"
+        pos += len(want)
+    if pos != len(got):
+        ctx.violation("R17.2", fi.short, "trailing content", fi.where(), f"{label}: {len(got) - pos} extra line(s) after the last input ({got[pos]!r} ...)")
+        return "trailing content"
+    return "equals first input + page-separated bodies of the others, in argument order"
+
+
+def r17_3(ctx: Ctx) -> None:
+    """bookkeeping: memoised functions on assemble_rtf's call graph (whether memoisation makes a later call assemble stale
+    content is observed by the repeated-call scenario of r17_2, which models functools caches faithfully)"""
     pm = ctx.pm
     fi = pm.func("assemble_rtf")
-    g = CFG(fi.node)
-    dom = g.dominators()
-    live = g.reachable(g.entry)
-
-    def nodes_with(pred):
-        out = []
-        for nd in g.nodes:
-            if nd.ast is None or id(nd) not in live:
-                continue
-            from ..cfg import own_parts
-            for part in own_parts(nd):
-                if any(pred(x) for x in ast.walk(part)):
-                    out.append(nd)
-                    break
-        return out
-
-    def is_open_w(x):
-        if isinstance(x, ast.Call) and dotted(x.func) == "open":
-            mode = x.args[1].value if len(x.args) > 1 and isinstance(x.args[1], ast.Constant) else next((k.value.value for k in x.keywords if k.arg == "mode" and isinstance(k.value, ast.Constant)), "r")
-            return any(ch in str(mode) for ch in "wax+")
-        if isinstance(x, ast.Call) and isinstance(x.func, ast.Attribute) and x.func.attr in ("write_text", "write_bytes"):
-            return True
-        return False
-
-    def is_open_r(x):
-        return isinstance(x, ast.Call) and dotted(x.func) == "open" and not is_open_w(x)
-
-    writes = nodes_with(is_open_w)
-    reads = nodes_with(is_open_r)
-    raises = [nd for nd in g.nodes if id(nd) in live and isinstance(nd.ast, ast.Raise) and isinstance(nd.ast.exc, ast.Call) and dotted(nd.ast.exc.func) == "FileNotFoundError"]
-    # the guard of the raise: an `if missing_files` test whose false branch leads to the rest
-    guards = [nd for nd in g.nodes if id(nd) in live and nd.kind == "test" and isinstance(nd.ast, ast.If) and any(isinstance(s, ast.Raise) for s in nd.ast.body)
-              and ("missing" in unparse(nd.ast.test) or "exists" in unparse(nd.ast.test))]
-    ctx.instance("R17.2", fi.where(), f"assemble_rtf: {len(writes)} output open(s), {len(reads)} input open(s), {len(raises)} FileNotFoundError raise(s), {len(guards)} existence guard(s)")
-    if not writes:
-        ctx.violation("R17.2", fi.short, "no output write", fi.where(), "assemble_rtf no longer writes the output file")
-    if not guards or not raises:
-        ctx.violation("R17.2", fi.short, "no existence check", fi.where(), "assemble_rtf no longer checks all inputs and raises FileNotFoundError up front")
-    for w in writes:
-        ok = any(id(gd) in dom.get(id(w), set()) for gd in guards)
-        if guards and not ok:
-            ctx.violation("R17.2", fi.short, "write not dominated by existence check", fi.where(w.ast), "the output is opened for writing on a path that has not passed the existence check of all inputs")
-        # every input read happens before the output is opened: no read node reachable from a write node
-        after = g.reachable(w)
-        late = [r for r in reads if id(r) in after and r is not w]
-        if late:
-            ctx.violation("R17.2", fi.short, "input read after output open", fi.where(late[0].ast),
-                          "an input file is opened after the output has been opened for writing: a missing/unreadable later input leaves a partial output")
-    # existence check covers all inputs: comprehension over input_files with os.path.exists
-    chk = [n for n in walk_no_nested(fi.node) if isinstance(n, ast.ListComp) and "exists" in unparse(n) and "input_files" in unparse(n.generators[0].iter)]
-    ctx.instance("R17.2", fi.where(), f"existence check over all input_files: {bool(chk)}")
-    if not chk:
-        ctx.violation("R17.2", fi.short, "existence check not over all inputs", fi.where(), "the existence check does not range over every input file")
-    # empty list returns before any file access
-    first = [s for s in fi.node.body if not (isinstance(s, ast.Expr) and isinstance(s.value, ast.Constant))][0]
-    ok = isinstance(first, ast.If) and unparse(first.test) in ("not input_files", "len(input_files) == 0") and isinstance(first.body[0], ast.Return)
-    ctx.instance("R17.2", fi.where(first), f"first statement `{unparse(first)[:50]}`")
-    if not ok:
-        ctx.violation("R17.2", fi.short, "empty list", fi.where(first), "an empty input list must return before anything is read or written")
-    # main loop: enumerate(rtf_contents) in order, start index per file, page command between
-    loops = [n for n in walk_no_nested(fi.node) if isinstance(n, ast.For) and isinstance(n.iter, ast.Call) and dotted(n.iter.func) == "enumerate"]
-    main = [lp for lp in loops if any(isinstance(c, ast.Call) and dotted(c.func).endswith("find_start_index") for c in ast.walk(lp))]
-    if not main:
-        ctx.violation("R17.2", fi.short, "per-file start index", fi.where(),
-                      "find_start_index is not evaluated inside the loop over the inputs: the preamble offset of one input is applied to others")
-    else:
-        lp = main[0]
-        iv, lv = (lp.target.elts[0].id, lp.target.elts[1].id) if isinstance(lp.target, ast.Tuple) else ("i", "lines")
-        for c in [c for c in ast.walk(lp) if isinstance(c, ast.Call) and dotted(c.func).endswith("find_start_index")]:
-            arg = unparse(c.args[0]) if c.args else "?"
-            guard = [unparse(a.test) for a in _anc(c, lp) if isinstance(a, ast.If)]
-            ctx.instance("R17.2", fi.where(c), f"find_start_index({arg}) under {guard}")
-            if arg != lv:
-                ctx.violation("R17.2", fi.short, f"find_start_index({arg})", fi.where(c), f"the start index of an input is computed from `{arg}`, not from that input's own lines")
-            if not any(g2.replace(" ", "") in (f"{iv}>0", f"0<{iv}", f"{iv}>=1", f"{iv}!=0") for g2 in guard):
-                ctx.violation("R17.2", fi.short, "start index guard " + str(guard), fi.where(c), "the preamble is not kept for exactly the first input")
-        txt = unparse(lp)
-        ords = "reversed" in unparse(lp.iter) or "sorted" in unparse(lp.iter)
-        if ords:
-            ctx.violation("R17.2", fi.short, "input order", fi.where(lp), "inputs are not processed in argument order")
-        last_guard = f"{iv} < len(rtf_contents) - 1"
-        n_last = txt.count(last_guard)
-        ctx.instance("R17.2", fi.where(lp), f"non-last guard `{last_guard}` used {n_last}x; closing-line test: {'strip() == ' in txt}")
-        if n_last < 2:
-            ctx.violation("R17.2", fi.short, "non-last guards", fi.where(lp), "dropping the closing line and inserting the page command must both be restricted to non-final inputs")
-        if "lines[-1].strip() == '}'" not in txt:
-            ctx.violation("R17.2", fi.short, "closing line test", fi.where(lp), "the last line is dropped without checking that it is the closing brace")
-        # page command appended after the part, inside the loop
-        apps = [c for c in ast.walk(lp) if isinstance(c, ast.Call) and isinstance(c.func, ast.Attribute) and c.func.attr in ("append", "extend")]
-        order = [unparse(c.args[0]) for c in sorted(apps, key=lambda c: c.lineno)]
-        ctx.instance("R17.2", fi.where(lp), f"appended per input, in order: {order}")
-        if len(order) < 2 or "page" not in order[-1]:
-            ctx.violation("R17.2", fi.short, "page command placement " + str(order), fi.where(lp), "the page command is not appended after each non-final input")
-    cmd = [n for n in walk_no_nested(fi.node) if isinstance(n, ast.Assign) and unparse(n.targets[0]) == "new_page_cmd"]
-    if cmd:
-        v = const_expr(pm, fi.module, cmd[0].value)
-        ctx.instance("R17.2", fi.where(cmd[0]), f"page command {v!r}")
-        if v is NOC or not str(v).startswith("\\page") or not str(v).endswith("\n"):
-            ctx.violation("R17.2", fi.short, f"page command {v!r}", fi.where(cmd[0]), "the separator between inputs is not a \\page line")
-    ctx.floor("R17.2", 6)
-    # R17.3 inputs are read when assemble_rtf is called: no memoised reader on its call graph
     from ..callgraph import CallGraph
     cg = CallGraph(pm)
     reach = cg.reachable(["assemble_rtf"])
-    for short in sorted(reach):
-        f2 = pm.funcs.get(short)
-        if f2 is None:
-            continue
-        for d in f2.decorators:
-            if d.split(".")[-1] in ("lru_cache", "cache"):
-                ctx.violation("R17.3", short, "memoised " + d, f2.where(), f"{short} (used by assemble_rtf) is memoised ({d}): a later call assembles the content a path had the first time it was read")
-    ctx.instance("R17.3", fi.where(), f"{len(reach)} function(s) on assemble_rtf's call graph, none memoised; input reads happen inside the call")
-
-
-def _anc(n, stop):
-    p = getattr(n, "_parent", None)
-    while p is not None and p is not stop:
-        yield p
-        p = getattr(p, "_parent", None)
+    memo = sorted(short for short in reach if short in pm.funcs and any(d.split(".")[-1] in ("lru_cache", "cache") for d in pm.funcs[short].decorators))
+    ctx.instance("R17.3", fi.where(), f"{len(reach)} function(s) on assemble_rtf's call graph, memoised: {memo or 'none'}")
 
 
 def check(ctx: Ctx) -> None:
     ctx.explain(
         "R17.1 layout agreement between writers and reader: from the abstract document shape of each encode path the literal "
-        "preamble is taken; the line offset from the last 'fcharset' line to the first body line must equal the constant "
-        "find_start_index adds, the font-table closing line must carry nothing else, and every alternative must end in a line "
-        "that is exactly '}'. R17.2 CFG of assemble_rtf: the FileNotFoundError guard over all inputs dominates the output "
-        "open, no input is opened after the output, the empty-list return is first, find_start_index is applied per input to "
-        "its own lines for i > 0, closing-line drop and page command are restricted to non-final inputs, in argument order.")
+        "preamble is taken, the line closing the font table located (it must carry nothing else, and every alternative must end in "
+        "a line that is exactly '}') and a model document built; R17.2 assemble_rtf's syntax tree is interpreted over an in-memory "
+        "file system holding such model documents: an empty list touches nothing, a single input is reproduced unchanged, two and "
+        "three inputs of every layout combination give the first input plus \\page-separated bodies of the others from their own "
+        "first body line in argument order (a different start line is reported as R17.1), and a missing input at any position "
+        "raises FileNotFoundError with the output path untouched. R17.3 a second call in the same model process after an input was "
+        "rewritten assembles the new content (memoised readers are modelled faithfully).")
+    ctx.explain("Method for R17.2/R17.3: " + METHOD + ". Decided for: the empty list, each writer layout alone, every ordered pair of layouts, "
+                "rotations/reversal as triples, a missing input at each of 3 positions with the output present and absent, and a repeated call "
+                "after an input was rewritten (counts in coverage.interpretation).")
     ctx.assume("inputs were written by this version of rtflite (the property's premise)")
+    ctx.assume("model documents: the preamble lines are the literal preamble the encoders write (R17.1), body lines are opaque tagged atoms that "
+               "contain neither the font-table marker nor a lone '}', the last line is '}'; the file system is an in-memory model (text files, "
+               "directories, open/Path/os/shutil/tempfile operations)")
+    ctx.assume("sequences of 0..3 inputs are representative of longer ones (the per-input treatment depends only on first / middle / last position)")
     ctx.undecided("that the assembled pages equal the concatenation for concrete inputs; colour tables of later inputs")
-    r17_1(ctx)
-    r17_2(ctx)
+    ctx.undecided("input sequences longer than 3; body lines that themselves contain the font-table marker; I/O errors other than a missing input")
+    docs = writer_docs(ctx)
+    ctx.floor("R17.1", 6)
+    if not docs:
+        docs = synthetic_docs()
+        ctx.explain("(writer layout undetermined: assemble_rtf was exercised on synthetic documents in today's layout)")
+    r17_2(ctx, docs)
+    r17_3(ctx)
